@@ -1,18 +1,26 @@
 //! C05 — privileged operations succeed only for the principal that owns them.
 //!
 //! The ENUMERATION: every contract kind of the workspace (4 factories, 11 minters created through their factories,
-//! 4 collection kinds, 7 whitelists, splits + cw4-group) × every `ExecuteMsg` variant (taken from the repo's own typed
-//! enums through wildcard-free matches: a new message kind breaks compilation) × caller ∈ {every account role, every
-//! contract of the world} × state class (fresh, started, sold out, after hand-over, frozen, renounced), executed with
-//! otherwise valid arguments and funds against the REAL contracts and compared with `LP.Priv.step` (Lean).
+//! 4 collection kinds, 7 whitelists, splits + cw4-group) × every `ExecuteMsg` variant (read at RUN TIME from the JSON schema
+//! of the repo's own typed enums: a new / removed message kind changes the run, not the build) × caller ∈ {every account
+//! role, every contract of the world} × state class (fresh, creator handed over before the sale starts, started, sold out,
+//! after hand-over, frozen, renounced), executed with otherwise valid arguments and funds against the REAL contracts and
+//! compared with `LP.Priv.step` (Lean).
 //!
-//! Monitors (direct transcription of the property, independent of the Lean model; they use the Rust-side table
-//! `rust_principal` and the authorisation state observed on the real contracts BEFORE the call):
-//!   * a caller that is not the row's principal succeeded;
-//!   * a failed call changed the raw storage of ANY contract of the app or any balance;
-//!   * an `execute` / user `instantiate` changed factory Params or minter Status;
-//!   * a user account instantiated a minter or a collection directly;
-//!   * the whitelist admin list changed after `mutable` became false.
+//! Monitors (direct transcription of the property, independent of the Lean model). "Who is the principal" is decided from
+//! the harness's own GHOST bookkeeping — whom it named at creation, plus the hand-over messages it sent itself and saw
+//! succeed — never from the answers of the contracts under test; which accounts are contracts is the harness's own
+//! knowledge (its role accounts are not):
+//!   * a caller that is not the row's principal succeeded                              `…/non-principal-succeeded`
+//!   * the observed authorisation state is not what the hand-overs sent so far produce `…/auth-state-changed-outside-handover`
+//!   * an `execute` / user `instantiate` changed factory Params or minter Status        `…/execute-changed-params|status`
+//!   * a plain account instantiated a minter or a collection directly                   `<kind>/instantiate/by-non-contract`
+//!   * the whitelist admin list changed after `mutable` became false                    `…/frozen-admin-list-changed`
+//!   * (harness assumption, not property evidence) a failed call changed raw storage / balances `…/failed-call-changed-state`
+//!
+//! Coverage floor: for every reserved row of the LEAN table the principal must have passed, and the guard must have been
+//! REACHED — non-principals refused and the principal accepted in the very same state — also after the principal was
+//! handed over (`cover` lines + `ses.require`).
 use cosmwasm_std::{Addr, Empty};
 use lp_harness::minters::*;
 use lp_harness::world::{addr, addr_id};
@@ -34,9 +42,10 @@ const NEW_SPLITS_ADMIN: u64 = 18;
 const GROUP_ADMIN: u64 = 19;
 const BUYER: u64 = 20;
 const NEW_MEMBER: u64 = 21;
+const NEW_CREATOR2: u64 = 22; // second creator hand-over (worlds whose first one happened before the sale started)
 const STRANGER: u64 = 99;
-const ROLES: [u64; 13] =
-    [CREATOR, WL_ADMIN, NEW_CREATOR, WL_ADMIN2, SPLITS_ADMIN, MEMBER1, MEMBER2, NEW_OWNER, NEW_SPLITS_ADMIN, GROUP_ADMIN, BUYER, NEW_MEMBER, STRANGER];
+const ROLES: [u64; 14] =
+    [CREATOR, WL_ADMIN, NEW_CREATOR, WL_ADMIN2, SPLITS_ADMIN, MEMBER1, MEMBER2, NEW_OWNER, NEW_SPLITS_ADMIN, GROUP_ADMIN, BUYER, NEW_MEMBER, NEW_CREATOR2, STRANGER];
 const DAY: u64 = 86_400_000_000_000;
 const HOUR: u64 = 3_600_000_000_000;
 
@@ -98,325 +107,375 @@ fn is_tiered(k: WlKind) -> bool {
     matches!(k, WlKind::Tiered | WlKind::TieredFlex | WlKind::TieredMerkle)
 }
 
-// ------------------------------------------------------------------------------------------------ typed message surface
+// ------------------------------------------------------------------------------------------------ message surface (RUN TIME)
 //
-// One wildcard-free `match` per ExecuteMsg / SudoMsg enum of the repo: the variant-name function and the list of
-// names come from the same arms, so adding, removing or renaming a message kind in /repo breaks compilation here.
+// The `ExecuteMsg` / `SudoMsg` variants of every contract kind are read at run time from the JSON schema the repo's own
+// types derive (`cw_serde` ⇒ `JsonSchema`). Nothing here matches on the variants at compile time: a message kind that is
+// added, removed or renamed in /repo changes the run (table rows, sweeps, monitors, coverage floor), never the build.
+//
+// * known names (the 47 message kinds of the Lean table) are swept by name;
+// * a variant the table does not know is swept as `m=other mn=<name>` with minimal arguments generated from its schema,
+//   under the same monitors, with the DEFAULT-DENY class of the contract kind (a new public message is reported with a
+//   failing input; a new properly guarded one only leaves a note);
+// * a known name that disappeared makes the Rust table answer `nobody` where the Lean table still names a principal:
+//   a table disagreement (the model has to be repaired), not a monitor alarm.
 
-macro_rules! names {
-    ($fname:ident, $cname:ident, $ty:ty, { $($pat:pat => $name:literal),* $(,)? }) => {
-        #[allow(dead_code)]
-        fn $fname(m: &$ty) -> &'static str { match m { $($pat => $name),* } }
-        #[allow(dead_code)]
-        const $cname: &[&str] = &[$($name),*];
+use cosmwasm_schema::schemars::schema_for;
+use std::sync::OnceLock;
+
+#[derive(Clone, Debug)]
+struct Variant {
+    /// protocol token (for `update_ownership` the cw_ownable action name)
+    name: String,
+    /// JSON path of the variant: `[name]` or `["update_ownership", action]`
+    path: Vec<String>,
+    /// schema of the variant's payload (`Null` for a unit variant serialised as a bare string)
+    payload: Value,
+    unit: bool,
+}
+
+struct Surface {
+    /// kind token -> (root schema, variants)
+    exec: BTreeMap<String, (Value, Vec<Variant>)>,
+    #[allow(dead_code)]
+    sudo: BTreeMap<String, (Value, Vec<Variant>)>,
+}
+
+fn enum_variants(root: &Value, node: &Value, prefix: &[String], out: &mut Vec<Variant>) {
+    let push = |name: &str, payload: Value, unit: bool, out: &mut Vec<Variant>| {
+        let mut path = prefix.to_vec();
+        path.push(name.to_string());
+        out.push(Variant { name: name.to_string(), path, payload, unit });
     };
-}
-
-macro_rules! vending_names {
-    ($f:ident, $c:ident, $k:ident) => {
-        names!($f, $c, $k::msg::ExecuteMsg, {
-            $k::msg::ExecuteMsg::Mint { .. } => "mint",
-            $k::msg::ExecuteMsg::SetWhitelist { .. } => "set_whitelist",
-            $k::msg::ExecuteMsg::Purge {} => "purge",
-            $k::msg::ExecuteMsg::UpdateMintPrice { .. } => "update_mint_price",
-            $k::msg::ExecuteMsg::UpdateStartTime(_) => "update_start_time",
-            $k::msg::ExecuteMsg::UpdateStartTradingTime(_) => "update_start_trading_time",
-            $k::msg::ExecuteMsg::UpdatePerAddressLimit { .. } => "update_per_address_limit",
-            $k::msg::ExecuteMsg::MintTo { .. } => "mint_to",
-            $k::msg::ExecuteMsg::MintFor { .. } => "mint_for",
-            $k::msg::ExecuteMsg::Shuffle {} => "shuffle",
-            $k::msg::ExecuteMsg::BurnRemaining {} => "burn_remaining",
-            $k::msg::ExecuteMsg::UpdateDiscountPrice { .. } => "update_discount_price",
-            $k::msg::ExecuteMsg::RemoveDiscountPrice {} => "remove_discount_price",
-        });
-    };
-}
-vending_names!(n_vending, N_VENDING, vending_minter);
-vending_names!(n_vending_featured, N_VENDING_FEATURED, vending_minter_featured);
-vending_names!(n_vending_flex, N_VENDING_FLEX, vending_minter_wl_flex);
-vending_names!(n_vending_flex_featured, N_VENDING_FLEX_FEATURED, vending_minter_wl_flex_featured);
-vending_names!(n_vending_merkle, N_VENDING_MERKLE, vending_minter_merkle_wl);
-vending_names!(n_vending_merkle_featured, N_VENDING_MERKLE_FEATURED, vending_minter_merkle_wl_featured);
-
-macro_rules! oe_names {
-    ($f:ident, $c:ident, $k:ident) => {
-        names!($f, $c, $k::msg::ExecuteMsg, {
-            $k::msg::ExecuteMsg::Mint { .. } => "mint",
-            $k::msg::ExecuteMsg::SetWhitelist { .. } => "set_whitelist",
-            $k::msg::ExecuteMsg::Purge {} => "purge",
-            $k::msg::ExecuteMsg::UpdateMintPrice { .. } => "update_mint_price",
-            $k::msg::ExecuteMsg::UpdateStartTime(_) => "update_start_time",
-            $k::msg::ExecuteMsg::UpdateEndTime(_) => "update_end_time",
-            $k::msg::ExecuteMsg::UpdateStartTradingTime(_) => "update_start_trading_time",
-            $k::msg::ExecuteMsg::UpdatePerAddressLimit { .. } => "update_per_address_limit",
-            $k::msg::ExecuteMsg::MintTo { .. } => "mint_to",
-            $k::msg::ExecuteMsg::BurnRemaining {} => "burn_remaining",
-        });
-    };
-}
-oe_names!(n_oe, N_OE, open_edition_minter);
-oe_names!(n_oe_flex, N_OE_FLEX, open_edition_minter_wl_flex);
-oe_names!(n_oe_merkle, N_OE_MERKLE, open_edition_minter_merkle_wl);
-
-names!(n_tm, N_TM, token_merge_minter::msg::ExecuteMsg, {
-    token_merge_minter::msg::ExecuteMsg::ReceiveNft(_) => "receive_nft",
-    token_merge_minter::msg::ExecuteMsg::Purge {} => "purge",
-    token_merge_minter::msg::ExecuteMsg::UpdateStartTime(_) => "update_start_time",
-    token_merge_minter::msg::ExecuteMsg::UpdateStartTradingTime(_) => "update_start_trading_time",
-    token_merge_minter::msg::ExecuteMsg::UpdatePerAddressLimit { .. } => "update_per_address_limit",
-    token_merge_minter::msg::ExecuteMsg::MintTo { .. } => "mint_to",
-    token_merge_minter::msg::ExecuteMsg::MintFor { .. } => "mint_for",
-    token_merge_minter::msg::ExecuteMsg::Shuffle {} => "shuffle",
-    token_merge_minter::msg::ExecuteMsg::BurnRemaining {} => "burn_remaining",
-});
-names!(n_base_minter, N_BASE_MINTER, base_minter::msg::ExecuteMsg, {
-    base_minter::msg::ExecuteMsg::Mint { .. } => "mint",
-    base_minter::msg::ExecuteMsg::UpdateStartTradingTime(_) => "update_start_trading_time",
-});
-
-// collections
-fn n_sg721<T>(m: &sg721::ExecuteMsg<T, Empty>) -> &'static str {
-    use cw_ownable::Action;
-    use sg721::ExecuteMsg as E;
-    match m {
-        E::TransferNft { .. } => "transfer_nft",
-        E::SendNft { .. } => "send_nft",
-        E::Approve { .. } => "approve",
-        E::Revoke { .. } => "revoke",
-        E::ApproveAll { .. } => "approve_all",
-        E::RevokeAll { .. } => "revoke_all",
-        E::Mint { .. } => "mint",
-        E::Burn { .. } => "burn",
-        E::Extension { .. } => "extension",
-        E::UpdateCollectionInfo { .. } => "update_collection_info",
-        E::UpdateStartTradingTime(_) => "update_start_trading_time",
-        E::FreezeCollectionInfo => "freeze_collection_info",
-        E::UpdateOwnership(Action::TransferOwnership { .. }) => "transfer_ownership",
-        E::UpdateOwnership(Action::AcceptOwnership) => "accept_ownership",
-        E::UpdateOwnership(Action::RenounceOwnership) => "renounce_ownership",
+    if let Some(alts) = node["oneOf"].as_array().or_else(|| node["anyOf"].as_array()) {
+        for a in alts {
+            enum_variants(root, a, prefix, out);
+        }
+        return;
     }
-}
-const N_SG721: &[&str] = &[
-    "transfer_nft", "send_nft", "approve", "revoke", "approve_all", "revoke_all", "mint", "burn", "extension",
-    "update_collection_info", "update_start_trading_time", "freeze_collection_info", "transfer_ownership",
-    "accept_ownership", "renounce_ownership",
-];
-type UpdatableMsg = sg721_updatable::msg::ExecuteMsg<Option<Empty>, Empty>;
-names!(n_updatable, N_UPDATABLE, UpdatableMsg, {
-    sg721_updatable::msg::ExecuteMsg::FreezeTokenMetadata {} => "freeze_token_metadata",
-    sg721_updatable::msg::ExecuteMsg::UpdateTokenMetadata { .. } => "update_token_metadata",
-    sg721_updatable::msg::ExecuteMsg::EnableUpdatable {} => "enable_updatable",
-    sg721_updatable::msg::ExecuteMsg::TransferNft { .. } => "transfer_nft",
-    sg721_updatable::msg::ExecuteMsg::SendNft { .. } => "send_nft",
-    sg721_updatable::msg::ExecuteMsg::Approve { .. } => "approve",
-    sg721_updatable::msg::ExecuteMsg::Revoke { .. } => "revoke",
-    sg721_updatable::msg::ExecuteMsg::ApproveAll { .. } => "approve_all",
-    sg721_updatable::msg::ExecuteMsg::RevokeAll { .. } => "revoke_all",
-    sg721_updatable::msg::ExecuteMsg::Burn { .. } => "burn",
-    sg721_updatable::msg::ExecuteMsg::UpdateCollectionInfo { .. } => "update_collection_info",
-    sg721_updatable::msg::ExecuteMsg::UpdateStartTradingTime(_) => "update_start_trading_time",
-    sg721_updatable::msg::ExecuteMsg::FreezeCollectionInfo {} => "freeze_collection_info",
-    sg721_updatable::msg::ExecuteMsg::Mint { .. } => "mint",
-    sg721_updatable::msg::ExecuteMsg::Extension { .. } => "extension",
-});
-type NtMsg = sg721_nt::msg::ExecuteMsg<Option<Empty>>;
-names!(n_nt, N_NT, NtMsg, {
-    sg721_nt::msg::ExecuteMsg::Mint { .. } => "mint",
-    sg721_nt::msg::ExecuteMsg::Burn { .. } => "burn",
-    sg721_nt::msg::ExecuteMsg::UpdateCollectionInfo { .. } => "update_collection_info",
-    sg721_nt::msg::ExecuteMsg::FreezeCollectionInfo {} => "freeze_collection_info",
-});
-
-// whitelists
-names!(n_wl_plain, N_WL_PLAIN, sg_whitelist::msg::ExecuteMsg, {
-    sg_whitelist::msg::ExecuteMsg::UpdateStartTime(_) => "update_start_time",
-    sg_whitelist::msg::ExecuteMsg::UpdateEndTime(_) => "update_end_time",
-    sg_whitelist::msg::ExecuteMsg::AddMembers(_) => "add_members",
-    sg_whitelist::msg::ExecuteMsg::RemoveMembers(_) => "remove_members",
-    sg_whitelist::msg::ExecuteMsg::UpdatePerAddressLimit(_) => "update_per_address_limit",
-    sg_whitelist::msg::ExecuteMsg::IncreaseMemberLimit(_) => "increase_member_limit",
-    sg_whitelist::msg::ExecuteMsg::UpdateAdmins { .. } => "update_admins",
-    sg_whitelist::msg::ExecuteMsg::Freeze {} => "freeze",
-});
-names!(n_wl_flex, N_WL_FLEX, sg_whitelist_flex::msg::ExecuteMsg, {
-    sg_whitelist_flex::msg::ExecuteMsg::UpdateStartTime(_) => "update_start_time",
-    sg_whitelist_flex::msg::ExecuteMsg::UpdateEndTime(_) => "update_end_time",
-    sg_whitelist_flex::msg::ExecuteMsg::AddMembers(_) => "add_members",
-    sg_whitelist_flex::msg::ExecuteMsg::RemoveMembers(_) => "remove_members",
-    sg_whitelist_flex::msg::ExecuteMsg::IncreaseMemberLimit(_) => "increase_member_limit",
-    sg_whitelist_flex::msg::ExecuteMsg::UpdateAdmins { .. } => "update_admins",
-    sg_whitelist_flex::msg::ExecuteMsg::Freeze {} => "freeze",
-});
-macro_rules! tiered_names {
-    ($f:ident, $c:ident, $k:ident) => {
-        names!($f, $c, $k::msg::ExecuteMsg, {
-            $k::msg::ExecuteMsg::AddStage(_) => "add_stage",
-            $k::msg::ExecuteMsg::RemoveStage(_) => "remove_stage",
-            $k::msg::ExecuteMsg::AddMembers(_) => "add_members",
-            $k::msg::ExecuteMsg::RemoveMembers(_) => "remove_members",
-            $k::msg::ExecuteMsg::UpdateStageConfig(_) => "update_stage_config",
-            $k::msg::ExecuteMsg::IncreaseMemberLimit(_) => "increase_member_limit",
-            $k::msg::ExecuteMsg::UpdateAdmins { .. } => "update_admins",
-            $k::msg::ExecuteMsg::Freeze {} => "freeze",
-        });
-    };
-}
-tiered_names!(n_wl_tiered, N_WL_TIERED, sg_tiered_whitelist);
-tiered_names!(n_wl_tiered_flex, N_WL_TIERED_FLEX, sg_tiered_whitelist_flex);
-names!(n_wl_merkle, N_WL_MERKLE, whitelist_mtree::msg::ExecuteMsg, {
-    whitelist_mtree::msg::ExecuteMsg::UpdateStartTime(_) => "update_start_time",
-    whitelist_mtree::msg::ExecuteMsg::UpdateEndTime(_) => "update_end_time",
-    whitelist_mtree::msg::ExecuteMsg::UpdateAdmins { .. } => "update_admins",
-    whitelist_mtree::msg::ExecuteMsg::Freeze {} => "freeze",
-});
-names!(n_wl_tiered_merkle, N_WL_TIERED_MERKLE, tiered_whitelist_merkletree::msg::ExecuteMsg, {
-    tiered_whitelist_merkletree::msg::ExecuteMsg::UpdateStageConfig(_) => "update_stage_config",
-    tiered_whitelist_merkletree::msg::ExecuteMsg::UpdateAdmins { .. } => "update_admins",
-    tiered_whitelist_merkletree::msg::ExecuteMsg::Freeze {} => "freeze",
-});
-#[allow(dead_code)]
-fn n_wl_immutable(m: &whitelist_immutable::msg::ExecuteMsg) -> &'static str {
-    match *m {}
-}
-const N_WL_IMMUTABLE: &[&str] = &[];
-
-names!(n_splits, N_SPLITS, sg_splits::msg::ExecuteMsg, {
-    sg_splits::msg::ExecuteMsg::UpdateAdmin { .. } => "update_admin",
-    sg_splits::msg::ExecuteMsg::Distribute { .. } => "distribute",
-});
-names!(n_group, N_GROUP, cw4_group::msg::ExecuteMsg, {
-    cw4_group::msg::ExecuteMsg::UpdateAdmin { .. } => "update_admin",
-    cw4_group::msg::ExecuteMsg::UpdateMembers { .. } => "update_members",
-    cw4_group::msg::ExecuteMsg::AddHook { .. } => "add_hook",
-    cw4_group::msg::ExecuteMsg::RemoveHook { .. } => "remove_hook",
-});
-
-// factories: execute + sudo
-names!(n_f_base, N_F_BASE, base_factory::msg::ExecuteMsg, { sg2::msg::Sg2ExecuteMsg::CreateMinter(_) => "create_minter" });
-names!(n_f_vending, N_F_VENDING, vending_factory::msg::ExecuteMsg, { sg2::msg::Sg2ExecuteMsg::CreateMinter(_) => "create_minter" });
-names!(n_f_oe, N_F_OE, open_edition_factory::msg::ExecuteMsg, { sg2::msg::Sg2ExecuteMsg::CreateMinter(_) => "create_minter" });
-names!(n_f_tm, N_F_TM, token_merge_factory::msg::ExecuteMsg, { token_merge_factory::msg::ExecuteMsg::CreateMinter(_) => "create_minter" });
-names!(n_sudo_f_base, N_SUDO_F_BASE, base_factory::msg::BaseSudoMsg, { base_factory::msg::SudoMsg::UpdateParams(_) => "update_params" });
-names!(n_sudo_f_vending, N_SUDO_F_VENDING, vending_factory::msg::SudoMsg, { vending_factory::msg::SudoMsg::UpdateParams(_) => "update_params" });
-names!(n_sudo_f_oe, N_SUDO_F_OE, open_edition_factory::msg::SudoMsg, { open_edition_factory::msg::SudoMsg::UpdateParams(_) => "update_params" });
-names!(n_sudo_f_tm, N_SUDO_F_TM, token_merge_factory::msg::SudoMsg, { token_merge_factory::msg::SudoMsg::UpdateParams(_) => "update_params" });
-names!(n_sudo_minter, N_SUDO_MINTER, sg4::SudoMsg, { sg4::SudoMsg::UpdateStatus { .. } => "update_status" });
-
-/// names of the `ExecuteMsg` variants of a contract kind
-fn names_of(kind: &str) -> &'static [&'static str] {
-    match kind {
-        "m.vending" => N_VENDING,
-        "m.vending_featured" => N_VENDING_FEATURED,
-        "m.vending_flex" => N_VENDING_FLEX,
-        "m.vending_flex_featured" => N_VENDING_FLEX_FEATURED,
-        "m.vending_merkle" => N_VENDING_MERKLE,
-        "m.vending_merkle_featured" => N_VENDING_MERKLE_FEATURED,
-        "m.oe" => N_OE,
-        "m.oe_flex" => N_OE_FLEX,
-        "m.oe_merkle" => N_OE_MERKLE,
-        "m.tm" => N_TM,
-        "m.base" => N_BASE_MINTER,
-        "c.base" | "c.onchain" => N_SG721,
-        "c.updatable" => N_UPDATABLE,
-        "c.nt" => N_NT,
-        "w.plain" => N_WL_PLAIN,
-        "w.flex" => N_WL_FLEX,
-        "w.tiered" => N_WL_TIERED,
-        "w.tiered_flex" => N_WL_TIERED_FLEX,
-        "w.merkle" => N_WL_MERKLE,
-        "w.tiered_merkle" => N_WL_TIERED_MERKLE,
-        "w.immutable" => N_WL_IMMUTABLE,
-        "splits" => N_SPLITS,
-        "group" => N_GROUP,
-        "f.base" => N_F_BASE,
-        "f.vending" => N_F_VENDING,
-        "f.oe" => N_F_OE,
-        "f.tm" => N_F_TM,
-        _ => &[],
+    if let Some(names) = node["enum"].as_array() {
+        for n in names {
+            if let Some(s) = n.as_str() {
+                push(s, Value::Null, true, out);
+            }
+        }
+        return;
     }
-}
-
-/// deserialise `v` with the repo's own typed enum of that contract kind and return the variant name
-fn typed_name(kind: &str, v: &Value) -> Result<&'static str, String> {
-    macro_rules! t {
-        ($ty:ty, $f:expr) => {
-            cosmwasm_std::from_json::<$ty>(serde_json::to_vec(v).unwrap()).map(|m| $f(&m)).map_err(|e| e.to_string())
-        };
-    }
-    match kind {
-        "m.vending" => t!(vending_minter::msg::ExecuteMsg, n_vending),
-        "m.vending_featured" => t!(vending_minter_featured::msg::ExecuteMsg, n_vending_featured),
-        "m.vending_flex" => t!(vending_minter_wl_flex::msg::ExecuteMsg, n_vending_flex),
-        "m.vending_flex_featured" => t!(vending_minter_wl_flex_featured::msg::ExecuteMsg, n_vending_flex_featured),
-        "m.vending_merkle" => t!(vending_minter_merkle_wl::msg::ExecuteMsg, n_vending_merkle),
-        "m.vending_merkle_featured" => t!(vending_minter_merkle_wl_featured::msg::ExecuteMsg, n_vending_merkle_featured),
-        "m.oe" => t!(open_edition_minter::msg::ExecuteMsg, n_oe),
-        "m.oe_flex" => t!(open_edition_minter_wl_flex::msg::ExecuteMsg, n_oe_flex),
-        "m.oe_merkle" => t!(open_edition_minter_merkle_wl::msg::ExecuteMsg, n_oe_merkle),
-        "m.tm" => t!(token_merge_minter::msg::ExecuteMsg, n_tm),
-        "m.base" => t!(base_minter::msg::ExecuteMsg, n_base_minter),
-        "c.base" => t!(sg721::ExecuteMsg<Option<Empty>, Empty>, n_sg721),
-        "c.onchain" => t!(sg721::ExecuteMsg<sg_metadata::Metadata, Empty>, n_sg721),
-        "c.updatable" => t!(UpdatableMsg, n_updatable),
-        "c.nt" => t!(NtMsg, n_nt),
-        "w.plain" => t!(sg_whitelist::msg::ExecuteMsg, n_wl_plain),
-        "w.flex" => t!(sg_whitelist_flex::msg::ExecuteMsg, n_wl_flex),
-        "w.tiered" => t!(sg_tiered_whitelist::msg::ExecuteMsg, n_wl_tiered),
-        "w.tiered_flex" => t!(sg_tiered_whitelist_flex::msg::ExecuteMsg, n_wl_tiered_flex),
-        "w.merkle" => t!(whitelist_mtree::msg::ExecuteMsg, n_wl_merkle),
-        "w.tiered_merkle" => t!(tiered_whitelist_merkletree::msg::ExecuteMsg, n_wl_tiered_merkle),
-        "w.immutable" => t!(whitelist_immutable::msg::ExecuteMsg, n_wl_immutable),
-        "splits" => t!(sg_splits::msg::ExecuteMsg, n_splits),
-        "group" => t!(cw4_group::msg::ExecuteMsg, n_group),
-        "f.base" => t!(base_factory::msg::ExecuteMsg, n_f_base),
-        "f.vending" => t!(vending_factory::msg::ExecuteMsg, n_f_vending),
-        "f.oe" => t!(open_edition_factory::msg::ExecuteMsg, n_f_oe),
-        "f.tm" => t!(token_merge_factory::msg::ExecuteMsg, n_f_tm),
-        _ => Err("unknown kind".into()),
-    }
-}
-fn typed_sudo_name(kind: &str, v: &Value) -> Result<&'static str, String> {
-    macro_rules! t {
-        ($ty:ty, $f:expr) => {
-            cosmwasm_std::from_json::<$ty>(serde_json::to_vec(v).unwrap()).map(|m| $f(&m)).map_err(|e| e.to_string())
-        };
-    }
-    match kind {
-        "f.base" => t!(base_factory::msg::BaseSudoMsg, n_sudo_f_base),
-        "f.vending" => t!(vending_factory::msg::SudoMsg, n_sudo_f_vending),
-        "f.oe" => t!(open_edition_factory::msg::SudoMsg, n_sudo_f_oe),
-        "f.tm" => t!(token_merge_factory::msg::SudoMsg, n_sudo_f_tm),
-        k if k.starts_with("m.") => t!(sg4::SudoMsg, n_sudo_minter),
-        _ => Err("no sudo".into()),
-    }
-}
-
-/// every message token the harness sends to a contract of this family: the family's union, so that each kind is also
-/// sent the messages it does NOT have (rows of class `nobody`) and the sudo message through `execute`
-fn family_tokens(kind: &str) -> Vec<&'static str> {
-    let fam: Vec<&'static [&'static str]> = if kind.starts_with("m.") {
-        vec![N_VENDING, N_OE, N_TM, N_BASE_MINTER, N_SUDO_MINTER]
-    } else if kind.starts_with("c.") {
-        vec![N_SG721, N_UPDATABLE, N_NT]
-    } else if kind.starts_with("w.") {
-        vec![N_WL_PLAIN, N_WL_FLEX, N_WL_TIERED, N_WL_MERKLE, N_WL_TIERED_MERKLE]
-    } else if kind.starts_with("f.") {
-        vec![N_F_VENDING, N_SUDO_F_VENDING]
-    } else if kind == "splits" {
-        vec![N_SPLITS]
-    } else {
-        vec![N_GROUP]
-    };
-    let mut out: Vec<&'static str> = vec![];
-    for l in fam {
-        for n in l {
-            if !out.contains(n) {
-                out.push(n);
+    if let (Some(req), Some(props)) = (node["required"].as_array(), node["properties"].as_object()) {
+        if req.len() == 1 {
+            if let Some(n) = req[0].as_str() {
+                push(n, props.get(n).cloned().unwrap_or(Value::Null), false, out);
             }
         }
     }
-    out
 }
+
+fn resolve<'a>(root: &'a Value, mut node: &'a Value) -> &'a Value {
+    for _ in 0..8 {
+        if let Some(r) = node["$ref"].as_str() {
+            node = &root["definitions"][r.trim_start_matches("#/definitions/")];
+            continue;
+        }
+        if let Some(a) = node["allOf"].as_array() {
+            if a.len() == 1 {
+                node = &a[0];
+                continue;
+            }
+        }
+        break;
+    }
+    node
+}
+
+fn surface_of(root: Value) -> (Value, Vec<Variant>) {
+    let mut top = vec![];
+    enum_variants(&root, &root, &[], &mut top);
+    let mut out = vec![];
+    for v in top {
+        // cw_ownable: `update_ownership` carries an enum of actions — each action is a row of the table
+        let inner = resolve(&root, &v.payload).clone();
+        if v.name == "update_ownership" && (inner["oneOf"].is_array() || inner["enum"].is_array()) {
+            enum_variants(&root, &inner, &v.path, &mut out);
+        } else {
+            out.push(v);
+        }
+    }
+    (root, out)
+}
+
+fn surface() -> &'static Surface {
+    static S: OnceLock<Surface> = OnceLock::new();
+    S.get_or_init(|| {
+        let mut exec = BTreeMap::new();
+        let mut sudo = BTreeMap::new();
+        macro_rules! e {
+            ($k:literal, $ty:ty) => {
+                exec.insert($k.to_string(), surface_of(serde_json::to_value(schema_for!($ty)).unwrap()));
+            };
+        }
+        macro_rules! s {
+            ($k:literal, $ty:ty) => {
+                sudo.insert($k.to_string(), surface_of(serde_json::to_value(schema_for!($ty)).unwrap()));
+            };
+        }
+        e!("m.vending", vending_minter::msg::ExecuteMsg);
+        e!("m.vending_featured", vending_minter_featured::msg::ExecuteMsg);
+        e!("m.vending_flex", vending_minter_wl_flex::msg::ExecuteMsg);
+        e!("m.vending_flex_featured", vending_minter_wl_flex_featured::msg::ExecuteMsg);
+        e!("m.vending_merkle", vending_minter_merkle_wl::msg::ExecuteMsg);
+        e!("m.vending_merkle_featured", vending_minter_merkle_wl_featured::msg::ExecuteMsg);
+        e!("m.oe", open_edition_minter::msg::ExecuteMsg);
+        e!("m.oe_flex", open_edition_minter_wl_flex::msg::ExecuteMsg);
+        e!("m.oe_merkle", open_edition_minter_merkle_wl::msg::ExecuteMsg);
+        e!("m.tm", token_merge_minter::msg::ExecuteMsg);
+        e!("m.base", base_minter::msg::ExecuteMsg);
+        e!("c.base", sg721::ExecuteMsg<Option<Empty>, Empty>);
+        e!("c.onchain", sg721::ExecuteMsg<sg_metadata::Metadata, Empty>);
+        e!("c.updatable", UpdatableMsg);
+        e!("c.nt", NtMsg);
+        e!("w.plain", sg_whitelist::msg::ExecuteMsg);
+        e!("w.flex", sg_whitelist_flex::msg::ExecuteMsg);
+        e!("w.tiered", sg_tiered_whitelist::msg::ExecuteMsg);
+        e!("w.tiered_flex", sg_tiered_whitelist_flex::msg::ExecuteMsg);
+        e!("w.merkle", whitelist_mtree::msg::ExecuteMsg);
+        e!("w.tiered_merkle", tiered_whitelist_merkletree::msg::ExecuteMsg);
+        e!("w.immutable", whitelist_immutable::msg::ExecuteMsg);
+        e!("splits", sg_splits::msg::ExecuteMsg);
+        e!("group", cw4_group::msg::ExecuteMsg);
+        e!("f.base", base_factory::msg::ExecuteMsg);
+        e!("f.vending", vending_factory::msg::ExecuteMsg);
+        e!("f.oe", open_edition_factory::msg::ExecuteMsg);
+        e!("f.tm", token_merge_factory::msg::ExecuteMsg);
+        s!("f.base", base_factory::msg::BaseSudoMsg);
+        s!("f.vending", vending_factory::msg::SudoMsg);
+        s!("f.oe", open_edition_factory::msg::SudoMsg);
+        s!("f.tm", token_merge_factory::msg::SudoMsg);
+        for k in ALL_MINTERS {
+            sudo.insert(mk_tok(k).to_string(), surface_of(serde_json::to_value(schema_for!(sg4::SudoMsg)).unwrap()));
+        }
+        Surface { exec, sudo }
+    })
+}
+
+type UpdatableMsg = sg721_updatable::msg::ExecuteMsg<Option<Empty>, Empty>;
+type NtMsg = sg721_nt::msg::ExecuteMsg<Option<Empty>>;
+
+/// the message kinds of the Lean table (`LP.Priv.MsgKind`, protocol names), by contract family
+const FAM_MINTER: &[&str] = &[
+    "mint", "set_whitelist", "purge", "update_mint_price", "update_start_time", "update_end_time", "update_start_trading_time",
+    "update_per_address_limit", "mint_to", "mint_for", "shuffle", "burn_remaining", "update_discount_price", "remove_discount_price",
+    "receive_nft", "update_status",
+];
+const FAM_COLL: &[&str] = &[
+    "transfer_nft", "send_nft", "approve", "revoke", "approve_all", "revoke_all", "mint", "burn", "extension", "update_collection_info",
+    "update_start_trading_time", "freeze_collection_info", "transfer_ownership", "accept_ownership", "renounce_ownership",
+    "freeze_token_metadata", "update_token_metadata", "enable_updatable",
+];
+const FAM_WL: &[&str] = &[
+    "update_start_time", "update_end_time", "add_members", "remove_members", "update_per_address_limit", "increase_member_limit",
+    "update_admins", "freeze", "add_stage", "remove_stage", "update_stage_config",
+];
+const FAM_FACTORY: &[&str] = &["create_minter", "update_params"];
+const FAM_SPLITS: &[&str] = &["update_admin", "distribute"];
+const FAM_GROUP: &[&str] = &["update_admin", "update_members", "add_hook", "remove_hook"];
+
+fn family_known(kind: &str) -> &'static [&'static str] {
+    if kind.starts_with("m.") {
+        FAM_MINTER
+    } else if kind.starts_with("c.") {
+        FAM_COLL
+    } else if kind.starts_with("w.") {
+        FAM_WL
+    } else if kind.starts_with("f.") {
+        FAM_FACTORY
+    } else if kind == "splits" {
+        FAM_SPLITS
+    } else {
+        FAM_GROUP
+    }
+}
+fn known_anywhere(name: &str) -> bool {
+    [FAM_MINTER, FAM_COLL, FAM_WL, FAM_FACTORY, FAM_SPLITS, FAM_GROUP].iter().any(|f| f.contains(&name))
+}
+
+/// names of the `ExecuteMsg` variants the contract kind has RIGHT NOW (run-time schema)
+fn names_of(kind: &str) -> Vec<String> {
+    surface().exec.get(kind).map(|(_, vs)| vs.iter().map(|v| v.name.clone()).collect()).unwrap_or_default()
+}
+fn has_msg(kind: &str, msg: &str) -> bool {
+    surface().exec.get(kind).map(|(_, vs)| vs.iter().any(|v| v.name == msg)).unwrap_or(false)
+}
+/// variants of this kind that are not message kinds of the table at all
+fn unknown_variants(kind: &str) -> Vec<String> {
+    names_of(kind).into_iter().filter(|n| !known_anywhere(n)).collect()
+}
+
+/// deserialise `v` with the repo's own typed enum of that contract kind, serialise it again and return the variant name
+/// the repo's codec gives it (no match on variants: purely a round trip through the typed message)
+fn typed_name(kind: &str, v: &Value) -> Result<String, String> {
+    macro_rules! t {
+        ($ty:ty) => {
+            cosmwasm_std::from_json::<$ty>(serde_json::to_vec(v).unwrap())
+                .and_then(|m| cosmwasm_std::to_json_vec(&m))
+                .map_err(|e| e.to_string())
+                .and_then(|b| serde_json::from_slice::<Value>(&b).map_err(|e| e.to_string()))
+        };
+    }
+    let back: Value = match kind {
+        "m.vending" => t!(vending_minter::msg::ExecuteMsg),
+        "m.vending_featured" => t!(vending_minter_featured::msg::ExecuteMsg),
+        "m.vending_flex" => t!(vending_minter_wl_flex::msg::ExecuteMsg),
+        "m.vending_flex_featured" => t!(vending_minter_wl_flex_featured::msg::ExecuteMsg),
+        "m.vending_merkle" => t!(vending_minter_merkle_wl::msg::ExecuteMsg),
+        "m.vending_merkle_featured" => t!(vending_minter_merkle_wl_featured::msg::ExecuteMsg),
+        "m.oe" => t!(open_edition_minter::msg::ExecuteMsg),
+        "m.oe_flex" => t!(open_edition_minter_wl_flex::msg::ExecuteMsg),
+        "m.oe_merkle" => t!(open_edition_minter_merkle_wl::msg::ExecuteMsg),
+        "m.tm" => t!(token_merge_minter::msg::ExecuteMsg),
+        "m.base" => t!(base_minter::msg::ExecuteMsg),
+        "c.base" => t!(sg721::ExecuteMsg<Option<Empty>, Empty>),
+        "c.onchain" => t!(sg721::ExecuteMsg<sg_metadata::Metadata, Empty>),
+        "c.updatable" => t!(UpdatableMsg),
+        "c.nt" => t!(NtMsg),
+        "w.plain" => t!(sg_whitelist::msg::ExecuteMsg),
+        "w.flex" => t!(sg_whitelist_flex::msg::ExecuteMsg),
+        "w.tiered" => t!(sg_tiered_whitelist::msg::ExecuteMsg),
+        "w.tiered_flex" => t!(sg_tiered_whitelist_flex::msg::ExecuteMsg),
+        "w.merkle" => t!(whitelist_mtree::msg::ExecuteMsg),
+        "w.tiered_merkle" => t!(tiered_whitelist_merkletree::msg::ExecuteMsg),
+        "w.immutable" => t!(whitelist_immutable::msg::ExecuteMsg),
+        "splits" => t!(sg_splits::msg::ExecuteMsg),
+        "group" => t!(cw4_group::msg::ExecuteMsg),
+        "f.base" => t!(base_factory::msg::ExecuteMsg),
+        "f.vending" => t!(vending_factory::msg::ExecuteMsg),
+        "f.oe" => t!(open_edition_factory::msg::ExecuteMsg),
+        "f.tm" => t!(token_merge_factory::msg::ExecuteMsg),
+        _ => Err("unknown kind".into()),
+    }?;
+    Ok(variant_key(&back))
+}
+fn typed_sudo_name(kind: &str, v: &Value) -> Result<String, String> {
+    macro_rules! t {
+        ($ty:ty) => {
+            cosmwasm_std::from_json::<$ty>(serde_json::to_vec(v).unwrap())
+                .and_then(|m| cosmwasm_std::to_json_vec(&m))
+                .map_err(|e| e.to_string())
+                .and_then(|b| serde_json::from_slice::<Value>(&b).map_err(|e| e.to_string()))
+        };
+    }
+    let back: Value = match kind {
+        "f.base" => t!(base_factory::msg::BaseSudoMsg),
+        "f.vending" => t!(vending_factory::msg::SudoMsg),
+        "f.oe" => t!(open_edition_factory::msg::SudoMsg),
+        "f.tm" => t!(token_merge_factory::msg::SudoMsg),
+        k if k.starts_with("m.") => t!(sg4::SudoMsg),
+        _ => Err("no sudo".into()),
+    }?;
+    Ok(variant_key(&back))
+}
+/// `{"name": …}` / `"name"`; `update_ownership` is named by its action
+fn variant_key(v: &Value) -> String {
+    let (k, inner) = match v {
+        Value::String(s) => (s.clone(), &Value::Null),
+        Value::Object(o) => match o.iter().next() {
+            Some((k, i)) => (k.clone(), i),
+            None => (String::new(), &Value::Null),
+        },
+        _ => (String::new(), &Value::Null),
+    };
+    if k == "update_ownership" {
+        return variant_key(inner);
+    }
+    k
+}
+
+/// every message token the harness sends to a contract of this kind: ALL message kinds of its family in the table (so each
+/// kind is also sent the messages it does NOT have — rows of class `nobody` — and the sudo message through `execute`)
+fn family_tokens(kind: &str) -> Vec<&'static str> {
+    family_known(kind).to_vec()
+}
+
+/// minimal arguments for a payload schema (used for variants the table does not know)
+fn minimal(root: &Value, node: &Value, field: &str, depth: u32) -> Value {
+    if depth > 6 {
+        return Value::Null;
+    }
+    if let Some(r) = node["$ref"].as_str() {
+        let name = r.trim_start_matches("#/definitions/");
+        return match name {
+            "Uint128" | "Uint64" | "Timestamp" | "Uint256" => json!("1"),
+            "Decimal" => json!("0.01"),
+            "Binary" => json!("e30="),
+            "Addr" => json!(addr(STRANGER)),
+            _ => minimal(root, &root["definitions"][name], field, depth + 1),
+        };
+    }
+    if let Some(a) = node["allOf"].as_array() {
+        if let Some(f) = a.first() {
+            return minimal(root, f, field, depth + 1);
+        }
+    }
+    if let Some(a) = node["anyOf"].as_array().or_else(|| node["oneOf"].as_array()) {
+        if a.iter().any(|x| x["type"] == "null") {
+            return Value::Null;
+        }
+        if let Some(f) = a.first() {
+            return minimal(root, f, field, depth + 1);
+        }
+    }
+    if let Some(e) = node["enum"].as_array() {
+        return e.first().cloned().unwrap_or(Value::Null);
+    }
+    let ty = match &node["type"] {
+        Value::String(s) => s.clone(),
+        Value::Array(a) => {
+            if a.iter().any(|x| x == "null") {
+                return Value::Null;
+            }
+            a.first().and_then(|x| x.as_str()).unwrap_or("").to_string()
+        }
+        _ => String::new(),
+    };
+    match ty.as_str() {
+        "object" => {
+            let mut o = serde_json::Map::new();
+            if let (Some(req), Some(props)) = (node["required"].as_array(), node["properties"].as_object()) {
+                for r in req {
+                    if let Some(n) = r.as_str() {
+                        o.insert(n.to_string(), minimal(root, props.get(n).unwrap_or(&Value::Null), n, depth + 1));
+                    }
+                }
+            }
+            Value::Object(o)
+        }
+        "string" => {
+            let f = field.to_lowercase();
+            if ["addr", "recipient", "admin", "owner", "contract", "creator", "operator", "spender", "sender", "minter", "whitelist", "collection"].iter().any(|p| f.contains(p)) {
+                json!(addr(STRANGER))
+            } else if f.contains("time") || f.contains("price") || f.contains("amount") {
+                json!("1")
+            } else {
+                json!("x")
+            }
+        }
+        "integer" | "number" => json!(1),
+        "boolean" => json!(false),
+        "array" => json!([]),
+        _ => Value::Null,
+    }
+}
+
+/// JSON of a variant of `kind` the table does not know, with minimal arguments
+fn unknown_msg_json(kind: &str, name: &str) -> Value {
+    let Some((root, vs)) = surface().exec.get(kind) else { return json!({ name: {} }) };
+    let Some(v) = vs.iter().find(|v| v.name == name) else { return json!({ name: {} }) };
+    let mut body = if v.unit { Value::String(name.to_string()) } else { json!({ name: minimal(root, &v.payload, name, 0) }) };
+    for p in v.path.iter().rev().skip(1) {
+        body = json!({ p.as_str(): body });
+    }
+    body
+}
+
 
 // ------------------------------------------------------------------------------------------------ the Rust-side table
 //
@@ -459,22 +518,47 @@ fn cls_name(c: Cls) -> &'static str {
     }
 }
 
+/// DEFAULT-DENY: the class of a message kind the table does not list (a variant found in the schema at run time)
+fn default_deny(kind: &str) -> Cls {
+    if kind == "m.base" {
+        Cls::Creator
+    } else if kind.starts_with("m.") {
+        Cls::MinterAdmin
+    } else if kind.starts_with("c.") {
+        Cls::Creator
+    } else if kind == "w.immutable" || kind.starts_with("f.") {
+        Cls::Nobody // nothing but `create_minter` may be sent to a factory by a user; the immutable whitelist has no messages
+    } else if kind.starts_with("w.") {
+        Cls::WlAdmin
+    } else if kind == "splits" {
+        Cls::SplitsAdmin
+    } else {
+        Cls::GroupAdmin
+    }
+}
+
 fn rust_principal(kind: &str, msg: &str) -> Cls {
-    if !names_of(kind).contains(&msg) {
+    if msg == "other" {
+        return default_deny(kind);
+    }
+    if !has_msg(kind, msg) {
         // not an execute message of this contract: either the governance message or nothing at all
         let sudo = (kind.starts_with("f.") && msg == "update_params") || (kind.starts_with("m.") && msg == "update_status");
         return if sudo { Cls::SudoOnly } else { Cls::Nobody };
     }
     if kind.starts_with("f.") {
-        return Cls::Anyone; // create_minter: paid, public
+        // create_minter: paid, public. Anything else a factory accepts through `execute` is reserved to governance.
+        return if msg == "create_minter" { Cls::Anyone } else { Cls::SudoOnly };
     }
     if kind == "m.base" {
-        return Cls::Creator; // "base-minter mints only for the collection creator" (and its trading-time update)
+        // "base-minter mints only for the collection creator" (and its trading-time update)
+        return if msg == "update_status" { Cls::SudoOnly } else { Cls::Creator };
     }
     if kind.starts_with("m.") {
         return match msg {
             "mint" | "purge" | "shuffle" => Cls::Anyone,
             "receive_nft" => Cls::MergeSource,
+            "update_status" => Cls::SudoOnly, // "minter status changes only through governance": also if `execute` had it
             _ => Cls::MinterAdmin, // configuration, airdrops, burn-remaining
         };
     }
@@ -530,7 +614,32 @@ struct Obs {
     st: u64,
 }
 impl Obs {
+    /// `primary ## drift`: the whitelist admin list is compared as a SET (the property constrains who is an admin, not the
+    /// stored order or duplicates); the stored order is an observation outside the projection
     fn render(&self) -> String {
+        let mut was = self.wa.clone();
+        was.sort();
+        was.dedup();
+        format!(
+            "adm={} own={} pend={} pex={} cr={} fz={} wa={} wm={} sa={} mem={} ga={} pv={} st={} ## wa_stored={}",
+            self.adm,
+            fmt_opt(&self.own),
+            fmt_opt(&self.pend),
+            fmt_opt(&self.pex),
+            self.cr,
+            self.fz as u8,
+            fmt_list(&was),
+            self.wm as u8,
+            fmt_opt(&self.sa),
+            fmt_list(&self.mem),
+            fmt_opt(&self.ga),
+            self.pv,
+            self.st,
+            fmt_list(&self.wa)
+        )
+    }
+    /// the header hands the STORED admin list to the model (it keeps the order; the rendering sorts)
+    fn render_header(&self) -> String {
         format!(
             "adm={} own={} pend={} pex={} cr={} fz={} wa={} wm={} sa={} mem={} ga={} pv={} st={}",
             self.adm,
@@ -548,14 +657,45 @@ impl Obs {
             self.st
         )
     }
+    /// the authorisation part (everything but the governance version numbers), for the ghost comparison
+    fn auth_diff(&self, other: &Obs) -> Option<String> {
+        let set = |v: &Vec<u64>| {
+            let mut x = v.clone();
+            x.sort();
+            x.dedup();
+            x
+        };
+        macro_rules! d {
+            ($f:ident, $name:literal) => {
+                if self.$f != other.$f {
+                    return Some(format!("{} expected {:?} observed {:?}", $name, self.$f, other.$f));
+                }
+            };
+        }
+        d!(adm, "minter admin");
+        d!(own, "collection owner (its minter)");
+        d!(pend, "pending owner");
+        d!(pex, "pending-transfer expiry");
+        d!(cr, "collection creator");
+        d!(fz, "collection-info frozen flag");
+        if set(&self.wa) != set(&other.wa) {
+            return Some(format!("whitelist admins expected {:?} observed {:?}", self.wa, other.wa));
+        }
+        d!(wm, "whitelist admins-mutable flag");
+        d!(sa, "splits admin");
+        d!(mem, "group members");
+        d!(ga, "group admin");
+        None
+    }
 }
 
-/// the guard, evaluated on the state observed on the real contracts (monitor side)
-fn rust_auth(o: &Obs, merge_sources: &[u64], caller: u64, is_contract: bool, cls: Cls) -> bool {
+/// the guard, evaluated on the harness's own GHOST of the authorisation state (what it created and handed over itself)
+fn rust_auth(o: &Obs, merge_sources: &[u64], caller: u64, is_contract: bool, cls: Cls, now: u64) -> bool {
     match cls {
         Cls::MinterAdmin => caller == o.adm,
         Cls::CollMinter => o.own == Some(caller),
-        Cls::PendingOwner => o.pend == Some(caller),
+        // a pending transfer can be accepted by the appointed account, and only BEFORE its expiry instant
+        Cls::PendingOwner => o.pend == Some(caller) && o.pex.map(|t| now < t).unwrap_or(true),
         Cls::Creator => caller == o.cr,
         Cls::WlAdmin => o.wa.contains(&caller),
         Cls::WlAdminMutable => o.wm && o.wa.contains(&caller),
@@ -606,14 +746,16 @@ struct Wd {
     fparams: FactoryParams,
     create: CreateArgs,
     uniq: u64,
+    /// what the harness itself set up (the ghost's initial value): who it named creator / admins / members
+    setup: Obs,
 }
 
 type Snapshot = (Vec<(String, Vec<(Vec<u8>, Vec<u8>)>)>, Vec<(String, Vec<(String, u128)>)>);
 
 fn wl_args(wk: WlKind, admin: u64, now0: u64) -> WlArgs {
     let st = |i: u64| WlStage {
-        start: now0 + 20 * DAY + i * DAY,
-        end: now0 + 20 * DAY + i * DAY + DAY / 2,
+        start: now0 + 3000 * DAY + i * DAY,
+        end: now0 + 3000 * DAY + i * DAY + DAY / 2,
         mint_price: (0, 60_000_000),
         per_address_limit: 2,
         mint_count_limit: Some(50),
@@ -690,7 +832,33 @@ impl Wd {
         for c in [&factory, &minter, &coll, &wl, &group] {
             w.fund(c, 0, 1_000_000_000_000);
         }
-        Ok(Wd { w, mk, ck, wk, factory, minter, coll, wl, wl2, group, splits, src_coll: src, merge_sources, params_seen: vec![], fparams: p, create: a, uniq: 0 })
+        if mk == MinterKind::TokenMerge {
+            // one token of the merge minter's OWN collection parked at the minter: a collection that is NOT a configured
+            // source then holds a token the minter could burn, so `receive_nft` sent by that collection is otherwise valid
+            // (a dozen: the sweeps of the public token-level rows let the minter contract move / burn its own tokens)
+            for _ in 0..12 {
+                let r = w.exec(&addr(CREATOR), &minter, &json!({"mint_to":{"recipient": minter}}), &[]);
+                if std::env::var("C05_DEBUG").is_ok() {
+                    eprintln!("park own-collection token at the merge minter: {:?}", r.as_ref().map(|_| "ok").map_err(|e| e.replace('\n', " ")));
+                }
+            }
+        }
+        let setup = Obs {
+            adm: if mk == MinterKind::Base { 0 } else { CREATOR }, // the base minter has no admin of its own (its rows belong to the creator)
+            own: Some(addr_id(&minter)),
+            pend: None,
+            pex: None,
+            cr: CREATOR,
+            fz: false,
+            wa: if wk == WlKind::Immutable { vec![] } else { vec![WL_ADMIN] },
+            wm: wk != WlKind::Immutable,
+            sa: Some(SPLITS_ADMIN),
+            mem: vec![MEMBER1, MEMBER2],
+            ga: Some(GROUP_ADMIN),
+            pv: 0,
+            st: 0,
+        };
+        Ok(Wd { w, mk, ck, wk, factory, minter, coll, wl, wl2, group, splits, src_coll: src, merge_sources, params_seen: vec![], fparams: p, create: a, uniq: 0, setup })
     }
 
     fn contracts(&self) -> Vec<String> {
@@ -747,7 +915,7 @@ impl Wd {
     }
 
     fn raw(&self, contract: &str, key: &[u8]) -> Option<Vec<u8>> {
-        self.w.dump(contract).into_iter().find(|(k, _)| k == key).map(|(_, v)| v)
+        self.w.app.wrap().query_wasm_raw(contract, key.to_vec()).ok().flatten()
     }
 
     fn params_json(&self) -> String {
@@ -763,15 +931,24 @@ impl Wd {
         let mut o = Obs::default();
         let cfg = self.w.query(&self.minter, &json!({"config":{}})).unwrap_or(Value::Null);
         o.adm = cfg["admin"].as_str().map(addr_id).unwrap_or(0);
-        if let Some(raw) = self.raw(&self.coll, b"ownership") {
-            let v: Value = serde_json::from_slice(&raw).unwrap_or(Value::Null);
-            o.own = opt_id(&v["owner"]);
-            o.pend = opt_id(&v["pending_owner"]);
-            o.pex = v["pending_expiry"]["at_time"].as_str().and_then(|s| s.parse().ok());
+        // cw_ownable state through the contract's own `ownership` query where the kind has it; sg721-updatable / sg721-nt
+        // only expose `minter` (= the owner; they have no transfer, so nothing is ever pending)
+        match self.w.query(&self.coll, &json!({"ownership":{}})) {
+            Ok(v) => {
+                o.own = opt_id(&v["owner"]);
+                o.pend = opt_id(&v["pending_owner"]);
+                o.pex = v["pending_expiry"]["at_time"].as_str().and_then(|s| s.parse().ok());
+            }
+            Err(_) => {
+                let v = self.w.query(&self.coll, &json!({"minter":{}})).unwrap_or(Value::Null);
+                o.own = opt_id(&v["minter"]);
+            }
         }
         let ci = self.w.query(&self.coll, &json!({"collection_info":{}})).unwrap_or(Value::Null);
         o.cr = ci["creator"].as_str().map(addr_id).unwrap_or(0);
-        o.fz = self.raw(&self.coll, b"frozen_collection_info").map(|v| v == b"true").unwrap_or(false);
+        // no query exposes the frozen flag: read it through the crate's own typed storage item (key and codec are the repo's)
+        let frozen_key = sg721_base::Sg721Contract::<cw721_base::Extension>::default().frozen_collection_info.as_slice().to_vec();
+        o.fz = self.raw(&self.coll, &frozen_key).and_then(|v| cosmwasm_std::from_json::<bool>(&v).ok()).unwrap_or(false);
         if self.wk != WlKind::Immutable {
             let al = self.w.query(&self.wl, &json!({"admin_list":{}})).unwrap_or(Value::Null);
             o.wa = al["admins"].as_array().map(|a| a.iter().map(|x| addr_id(&jstr(x))).collect()).unwrap_or_default();
@@ -779,8 +956,20 @@ impl Wd {
         }
         let sa = self.w.query(&self.splits, &json!({"admin":{}})).unwrap_or(Value::Null);
         o.sa = opt_id(&sa["admin"]);
-        let ms = self.w.query(&self.group, &json!({"list_members":{"limit": 30}})).unwrap_or(Value::Null);
-        o.mem = ms["members"].as_array().map(|a| a.iter().map(|x| addr_id(&jstr(&x["addr"]))).collect()).unwrap_or_default();
+        // every page of the cw4 member list (the contract caps a page at 30)
+        let mut after: Option<String> = None;
+        loop {
+            let ms = self.w.query(&self.group, &json!({"list_members":{"limit": 30, "start_after": after}})).unwrap_or(Value::Null);
+            let page: Vec<String> = ms["members"].as_array().map(|a| a.iter().map(|x| jstr(&x["addr"])).collect()).unwrap_or_default();
+            if page.is_empty() {
+                break;
+            }
+            o.mem.extend(page.iter().map(|a| addr_id(a)));
+            after = page.last().cloned();
+            if page.len() < 30 {
+                break;
+            }
+        }
         o.mem.sort();
         let ga = self.w.query(&self.group, &json!({"admin":{}})).unwrap_or(Value::Null);
         o.ga = opt_id(&ga["admin"]);
@@ -809,6 +998,18 @@ fn ids(line: &str, key: &str) -> Vec<u64> {
     kv_list(line, key).unwrap_or_default().into_iter().map(|x| x as u64).collect()
 }
 
+/// argument ladder: `alt=0` is the smallest change today's validation accepts; higher rungs are coarser, so that a
+/// tightened (unrelated) validation rule does not make the principal's call fail and the row lose its coverage
+fn alt_dt(alt: u64) -> u64 {
+    match alt {
+        0 => 1000,
+        1 => HOUR,
+        2 => DAY,
+        _ => 3 * DAY,
+    }
+}
+const MAX_ALT: u64 = 3;
+
 impl Wd {
     fn next_uniq(&mut self) -> u64 {
         self.uniq += 1;
@@ -824,9 +1025,11 @@ impl Wd {
         all["tokens"].as_array().and_then(|a| a.first()).map(jstr).unwrap_or_else(|| "1".into())
     }
 
-    fn minter_msg(&mut self, msg: &str, line: &str) -> (Value, Vec<(u64, u128)>) {
+    fn minter_msg(&mut self, msg: &str, line: &str, caller: &str) -> (Value, Vec<(u64, u128)>) {
         let cfg = self.w.query(&self.minter, &json!({"config":{}})).unwrap_or(Value::Null);
         let now = self.w.time();
+        let alt = kv_u64(line, "alt").unwrap_or(0);
+        let dt = alt_dt(alt);
         let start = jnanos(&cfg["start_time"]);
         let price = jamount(&cfg["mint_price"]);
         let minp = self.fparams.min_mint_price.1;
@@ -845,10 +1048,18 @@ impl Wd {
             }
             "set_whitelist" => (json!({"set_whitelist":{"whitelist": self.wl2}}), vec![]),
             "purge" => (json!({"purge":{}}), vec![]),
-            "update_mint_price" => (json!({"update_mint_price":{"price": (price.saturating_sub(1000)).max(minp).to_string()}}), vec![]),
-            "update_start_time" => (json!({"update_start_time": ts(start.max(now) + 1000)}), vec![]),
-            "update_end_time" => (json!({"update_end_time": ts(jnanos(&cfg["end_time"]).max(now) + 1000)}), vec![]),
-            "update_start_trading_time" => (json!({"update_start_trading_time": ts(now + 1000)}), vec![]),
+            "update_mint_price" => {
+                let p = match alt {
+                    0 => price.saturating_sub(1000).max(minp),
+                    1 => price,
+                    2 => minp,
+                    _ => price.saturating_sub(price / 10).max(minp),
+                };
+                (json!({"update_mint_price":{"price": p.to_string()}}), vec![])
+            }
+            "update_start_time" => (json!({"update_start_time": ts(start.max(now) + dt)}), vec![]),
+            "update_end_time" => (json!({"update_end_time": ts(jnanos(&cfg["end_time"]).max(now) + dt)}), vec![]),
+            "update_start_trading_time" => (json!({"update_start_trading_time": ts(now + dt)}), vec![]),
             "update_per_address_limit" => {
                 let cur = cfg["per_address_limit"].as_u64().unwrap_or(3);
                 (json!({"update_per_address_limit":{"per_address_limit": if cur == 3 { 2 } else { 3 }}}), vec![])
@@ -859,24 +1070,60 @@ impl Wd {
             }
             "mint_for" => {
                 let n = cfg["num_tokens"].as_u64().unwrap_or(1).max(1);
-                let tid = kv_u64(line, "tid").unwrap_or((u * 37) % n + 1);
+                // a token id that is still mintable: not among the collection's existing tokens (burnt ones are caught by the ladder)
+                let minted: BTreeSet<String> = {
+                    let mut out = BTreeSet::new();
+                    let mut after: Option<String> = None;
+                    loop {
+                        let q = self.w.query(&self.coll, &json!({"all_tokens":{"limit": 100, "start_after": after}})).unwrap_or(Value::Null);
+                        let page: Vec<String> = q["tokens"].as_array().map(|a| a.iter().map(jstr).collect()).unwrap_or_default();
+                        if page.is_empty() {
+                            break;
+                        }
+                        after = page.last().cloned();
+                        let full = page.len() >= 100;
+                        out.extend(page);
+                        if !full {
+                            break;
+                        }
+                    }
+                    out
+                };
+                let free = (0..n).map(|i| (u * 37 + alt * 17 + i) % n + 1).find(|t| !minted.contains(&t.to_string()));
+                let tid = kv_u64(line, "tid").unwrap_or(free.unwrap_or((u * 37) % n + 1));
                 let ap = self.fparams.airdrop_mint_price.1;
                 (json!({"mint_for":{"token_id": tid, "recipient": addr(BUYER)}}), if ap > 0 { vec![(0, ap)] } else { vec![] })
             }
             "shuffle" => (json!({"shuffle":{}}), vec![self.fparams.shuffle_fee]),
             "burn_remaining" => (json!({"burn_remaining":{}}), vec![]),
-            "update_discount_price" => (json!({"update_discount_price":{"price": (price.saturating_sub(2000)).max(minp).to_string()}}), vec![]),
+            "update_discount_price" => {
+                let p = match alt {
+                    0 => price.saturating_sub(2000).max(minp),
+                    1 => minp,
+                    _ => price,
+                };
+                (json!({"update_discount_price":{"price": p.to_string()}}), vec![])
+            }
             "remove_discount_price" => (json!({"remove_discount_price":{}}), vec![]),
             "receive_nft" => {
-                // a source token parked at the minter (so that the burn sub-message can succeed)
-                let tok = match &self.src_coll {
+                // a token parked at the minter in the collection that SENDS the message if the caller is a collection of
+                // this world (so that the burn sub-message can succeed), else one of the source collection
+                let from = if caller == self.coll { Some(self.coll.clone()) } else { self.src_coll.clone() };
+                let tok = match &from {
                     Some(sc) => {
                         let q = self.w.query(sc, &json!({"tokens":{"owner": self.minter, "limit": 1}})).unwrap_or(Value::Null);
                         q["tokens"].as_array().and_then(|a| a.first()).map(jstr).unwrap_or_else(|| "1".into())
                     }
                     None => "1".into(),
                 };
-                (json!({"receive_nft":{"sender": addr(6000 + u), "token_id": tok, "msg": b64(&json!({"deposit_token":{"recipient": null}}))}}), vec![])
+                // `sender` is a caller-controlled FIELD (the account that sent the NFT): sv=1 names the configured source
+                // collection there — a guard that looks at the field instead of `info.sender` would accept it
+                let (snd, rcp) = if kv_u64(line, "sv") == Some(1) {
+                    (self.src_coll.clone().unwrap_or_else(|| self.coll.clone()), Value::String(addr(6000 + u)))
+                } else {
+                    (addr(6000 + u), Value::Null)
+                };
+                (json!({"receive_nft":{"sender": snd, "token_id": tok, "msg": b64(&json!({"deposit_token":{"recipient": rcp}}))}}), vec![])
             }
             "update_status" => (json!({"update_status":{"is_verified": true, "is_blocked": true, "is_explicit": true}}), vec![]),
             other => (json!({ other: {} }), vec![]),
@@ -885,6 +1132,7 @@ impl Wd {
 
     fn coll_msg(&mut self, msg: &str, line: &str, caller: &str) -> (Value, Vec<(u64, u128)>) {
         let now = self.w.time();
+        let alt = kv_u64(line, "alt").unwrap_or(0);
         let u = self.next_uniq();
         let unit = matches!(self.ck, CollKind::Base | CollKind::MetadataOnchain);
         let other = if caller == addr(STRANGER) { addr(BUYER) } else { addr(STRANGER) };
@@ -910,7 +1158,7 @@ impl Wd {
                     json!({"update_collection_info":{"collection_info": body}})
                 }
             }
-            "update_start_trading_time" => json!({"update_start_trading_time": ts(now + 2000)}),
+            "update_start_trading_time" => json!({"update_start_trading_time": ts(now + 2 * alt_dt(alt))}),
             "freeze_collection_info" => {
                 if unit {
                     json!("freeze_collection_info")
@@ -930,7 +1178,14 @@ impl Wd {
             "enable_updatable" => json!({"enable_updatable":{}}),
             other => json!({ other: {} }),
         };
-        let funds = if msg == "enable_updatable" { vec![(0, 1_500_000_000u128)] } else { vec![] };
+        // the fee is another property's business: ask the contract (query), fall back to a ladder of amounts
+        let funds = if msg == "enable_updatable" {
+            let asked = self.w.query(&self.coll, &json!({"enable_updatable_fee":{}})).ok().and_then(|v| v.as_str().and_then(|s| s.parse::<u128>().ok()).or(Some(jamount(&v)))).filter(|a| *a > 0);
+            let ladder = [1_500_000_000u128, 1_000_000_000, 2_000_000_000, 5_000_000_000];
+            vec![(0, if alt == 0 { asked.unwrap_or(ladder[0]) } else { ladder[(alt as usize) % ladder.len()] })]
+        } else {
+            vec![]
+        };
         (v, funds)
     }
 
@@ -946,6 +1201,7 @@ impl Wd {
     fn wl_msg(&mut self, msg: &str, line: &str) -> (Value, Vec<(u64, u128)>) {
         let cfg = self.w.query(&self.wl, &json!({"config":{}})).unwrap_or(Value::Null);
         let now = self.w.time();
+        let dt = alt_dt(kv_u64(line, "alt").unwrap_or(0));
         let u = self.next_uniq();
         let flex = matches!(self.wk, WlKind::Flex | WlKind::TieredFlex);
         let tiered = is_tiered(self.wk);
@@ -957,10 +1213,10 @@ impl Wd {
             vec![]
         };
         let v = match msg {
-            "update_start_time" => json!({"update_start_time": ts(jnanos(&cfg["start_time"]).max(now) + 1000)}),
+            "update_start_time" => json!({"update_start_time": ts(jnanos(&cfg["start_time"]).max(now) + dt)}),
             "update_end_time" => {
                 let (s, e) = (jnanos(&cfg["start_time"]), jnanos(&cfg["end_time"]));
-                json!({"update_end_time": ts(if now >= s { e.saturating_sub(1000) } else { e + 1000 })})
+                json!({"update_end_time": ts(if now >= s { e.saturating_sub(dt) } else { e + dt })})
             }
             "add_members" => {
                 let m = if flex { json!([{"address": fresh, "mint_count": 1}]) } else { json!([fresh]) };
@@ -988,7 +1244,7 @@ impl Wd {
             "freeze" => json!({"freeze":{}}),
             "add_stage" => {
                 let last_end = stages.last().map(|s| jnanos(&s["end_time"])).unwrap_or(now).max(now);
-                let st = self.stage_json(stages.len(), last_end + 1000, last_end + 1000 + HOUR);
+                let st = self.stage_json(stages.len(), last_end + dt, last_end + dt + HOUR);
                 let m = if flex { json!([{"address": fresh, "mint_count": 1}]) } else { json!([fresh]) };
                 json!({"add_stage":{"stage": st, "members": m}})
             }
@@ -1008,8 +1264,12 @@ impl Wd {
     }
 
     fn build_msg(&mut self, kind: &str, msg: &str, line: &str, caller: &str) -> (Value, Vec<(u64, u128)>) {
+        if msg == "other" {
+            // a variant the table does not know: minimal arguments from the repo's JSON schema, no funds
+            return (unknown_msg_json(kind, kv(line, "mn").unwrap_or("")), vec![]);
+        }
         if kind.starts_with("m.") {
-            self.minter_msg(msg, line)
+            self.minter_msg(msg, line, caller)
         } else if kind.starts_with("c.") {
             self.coll_msg(msg, line, caller)
         } else if kind.starts_with("w.") {
@@ -1051,8 +1311,11 @@ impl Wd {
     }
 
     /// instantiate message + code id + funds for a fresh contract of `kind`
-    fn inst_msg(&mut self, kind: &str, caller: &str) -> Option<(u64, Value, Vec<(u64, u128)>)> {
+    fn inst_msg(&mut self, kind: &str, caller: &str, line: &str) -> Option<(u64, Value, Vec<(u64, u128)>)> {
         let now = self.w.time();
+        // `mt` = the address named in the `minter` FIELD of a collection's instantiate message (caller-controlled; the
+        // property is about the SENDER): the sender itself when absent
+        let named_minter = kv_u64(line, "mt").map(addr).unwrap_or_else(|| caller.to_string());
         if let Some(mk) = parse_mk(kind) {
             let p = self.w.default_params(mk);
             let mut a = self.w.default_create(mk, &p);
@@ -1071,7 +1334,7 @@ impl Wd {
         if let Some(ck) = parse_ck(kind) {
             let a = self.create.clone();
             let info = collection_params_json(&a)["info"].clone();
-            return Some((self.w.coll_code(ck), json!({"name": "Direct", "symbol": "DIR", "minter": caller, "collection_info": info}), vec![]));
+            return Some((self.w.coll_code(ck), json!({"name": "Direct", "symbol": "DIR", "minter": named_minter, "collection_info": info}), vec![]));
         }
         if let Some(wk) = parse_wk(kind) {
             let args = wl_args(wk, addr_id(caller), now);
@@ -1109,43 +1372,98 @@ struct LastOp {
     authorised: bool,
     ok: bool,
     err: String,
+    /// the row's principal had already been handed over (or, for minter-admin rows, creator ≠ admin) when the call was made
+    post_epoch: bool,
 }
 
 struct S {
     wd: Option<Wd>,
+    /// last observation of the real contracts
     cur: Obs,
+    /// the harness's own bookkeeping of the authorisation state: what it set up, plus the hand-overs it sent itself and
+    /// saw succeed. The monitors decide "is this caller the principal" from THIS, never from the contracts' answers.
+    ghost: Obs,
+    /// ghost at the beginning of the case (to tell "before / after the hand-over" per principal)
+    init: Obs,
     snap: Option<Snapshot>,
     finding: Option<(String, String)>,
     frozen_admins: Option<Vec<u64>>,
     last: LastOp,
+    notes: BTreeSet<String>,
+}
+
+/// "after hand-over" for a row of class `cls`: the principal the row is reserved to is no longer the one of the fresh world
+fn post_epoch(cls: Cls, g: &Obs, init: &Obs) -> bool {
+    let set = |v: &Vec<u64>| {
+        let mut x = v.clone();
+        x.sort();
+        x.dedup();
+        x
+    };
+    match cls {
+        Cls::MinterAdmin => g.cr != g.adm, // the state in which "minter admin" and "collection creator" are different accounts
+        Cls::Creator => g.cr != init.cr,
+        Cls::CollMinter | Cls::PendingOwner => g.own != init.own,
+        Cls::WlAdmin | Cls::WlAdminMutable => set(&g.wa) != set(&init.wa),
+        Cls::SplitsAdmin | Cls::SplitsAdminElseMember => g.sa != init.sa,
+        Cls::GroupAdmin => g.ga != init.ga,
+        _ => false,
+    }
+}
+/// classes whose principal can be handed over (or can come apart from the creator): the guard must ALSO be seen working
+/// after that
+fn needs_post(cls: Cls) -> bool {
+    matches!(cls, Cls::MinterAdmin | Cls::Creator | Cls::CollMinter | Cls::WlAdmin | Cls::WlAdminMutable | Cls::SplitsAdmin | Cls::SplitsAdminElseMember | Cls::GroupAdmin)
+}
+fn reservable(cls: Cls) -> bool {
+    !matches!(cls, Cls::Anyone | Cls::Nobody | Cls::SudoOnly)
 }
 
 impl S {
     fn new() -> S {
-        S { wd: None, cur: Obs::default(), snap: None, finding: None, frozen_admins: None, last: LastOp::default() }
+        S { wd: None, cur: Obs::default(), ghost: Obs::default(), init: Obs::default(), snap: None, finding: None, frozen_admins: None, last: LastOp::default(), notes: BTreeSet::new() }
     }
     fn flag(&mut self, key: String, what: String) {
         if self.finding.is_none() {
             self.finding = Some((key, what));
         }
     }
-    /// bookkeeping common to every op: post-observation, frozen-admins monitor
+    /// bookkeeping common to every op: post-observation, ghost comparison, frozen-admins monitor
     fn after(&mut self, line: &str) -> Obs {
         let post = self.wd.as_mut().unwrap().obs();
+        // the authorisation state may only move the way the harness's own successful hand-over messages moved it
+        if let Some(d) = self.ghost.auth_diff(&post) {
+            self.flag(
+                format!("{}/{}/auth-state-changed-outside-handover", self.last.kind, self.last.msg),
+                format!("after `{line}` (ok={}) the authorisation state is not what the hand-overs sent so far produce: {d}", self.last.ok),
+            );
+            let (pv, st) = (self.ghost.pv, self.ghost.st);
+            self.ghost = post.clone();
+            self.ghost.pv = pv;
+            self.ghost.st = st;
+        }
         if let Some(fa) = self.frozen_admins.clone() {
-            if post.wm || post.wa != fa {
+            let set = |v: &Vec<u64>| {
+                let mut x = v.clone();
+                x.sort();
+                x.dedup();
+                x
+            };
+            if post.wm || set(&post.wa) != set(&fa) {
                 self.flag(
                     format!("{}/{}/frozen-admin-list-changed", self.last.kind, self.last.msg),
                     format!("whitelist admin list was frozen at {:?}, now admins={:?} mutable={} after `{line}`", fa, post.wa, post.wm),
                 );
             }
-        } else if !post.wm && self.wd.as_ref().unwrap().wk != WlKind::Immutable {
-            self.frozen_admins = Some(post.wa.clone());
+        } else if !self.ghost.wm && self.wd.as_ref().unwrap().wk != WlKind::Immutable {
+            self.frozen_admins = Some(self.ghost.wa.clone());
         }
         self.cur = post.clone();
         post
     }
-    /// a failed call must leave every contract's raw storage and every balance byte-identical
+    /// a failed call must leave every contract's raw storage and every balance byte-identical. (cw-multi-test rolls a failed
+    /// transaction back by construction, so this can only fire after a panic that leaves the `App` half-written: it guards
+    /// the harness's own assumption, it is NOT evidence for the property's "changes nothing".)
     fn check_unchanged(&mut self, pre: &Snapshot, line: &str) {
         let post = self.wd.as_ref().unwrap().snapshot();
         if *pre != post {
@@ -1192,6 +1510,48 @@ impl S {
             self.flag(format!("{}/{}/execute-changed-status", self.last.kind, self.last.msg), format!("`{line}` changed minter status {} -> {}", pre.st, st));
         }
     }
+    /// the effect of a hand-over message the harness sent itself and saw succeed, on its own bookkeeping
+    fn ghost_handover(&mut self, kind: &str, msg: &str, line: &str) {
+        let fam = kind.split('.').next().unwrap_or("");
+        let g = &mut self.ghost;
+        match (fam, msg) {
+            ("c", "update_collection_info") => {
+                if let Some(Some(nc)) = kv_opt_u64(line, "nc") {
+                    g.cr = nc;
+                }
+            }
+            ("c", "freeze_collection_info") => g.fz = true,
+            ("c", "transfer_ownership") => {
+                g.pend = Some(kv_u64(line, "no").unwrap_or(STRANGER));
+                g.pex = kv_opt_u64(line, "ex").flatten();
+            }
+            ("c", "accept_ownership") => {
+                g.own = g.pend;
+                g.pend = None;
+                g.pex = None;
+            }
+            ("c", "renounce_ownership") => {
+                g.own = None;
+                g.pend = None;
+                g.pex = None;
+            }
+            ("w", "update_admins") => g.wa = ids(line, "al"),
+            ("w", "freeze") => g.wm = false,
+            ("splits", "update_admin") => g.sa = kv_opt_u64(line, "na").flatten(),
+            ("group", "update_admin") => g.ga = kv_opt_u64(line, "na").flatten(),
+            ("group", "update_members") => {
+                for a in ids(line, "add") {
+                    if !g.mem.contains(&a) {
+                        g.mem.push(a);
+                    }
+                }
+                let rm = ids(line, "rm");
+                g.mem.retain(|a| !rm.contains(a));
+                g.mem.sort();
+            }
+            _ => {}
+        }
+    }
 }
 
 impl Sut for S {
@@ -1204,13 +1564,24 @@ impl Sut for S {
         let o = wd.obs();
         let now = wd.w.time();
         let ms = fmt_list(&wd.merge_sources);
+        // the ghost starts from what the harness itself named at creation; who ends up admin / owner / creator at creation
+        // is property C08's business — a difference is noted and the observation is adopted
+        let mut ghost = wd.setup.clone();
+        ghost.pv = o.pv;
+        ghost.st = o.st;
+        if let Some(d) = ghost.auth_diff(&o) {
+            self.notes.insert(format!("initial principals differ from what was named at creation (owned by C08): {d}"));
+            ghost = o.clone();
+        }
         self.wd = Some(wd);
         self.cur = o.clone();
+        self.init = ghost.clone();
+        self.ghost = ghost;
         self.snap = None;
         self.finding = None;
         self.frozen_admins = None;
         self.last = LastOp::default();
-        (format!("{header} now={now} {} ms={ms}", o.render()), format!("case {}", o.render()))
+        (format!("{header} now={now} {} ms={ms}", o.render_header()), format!("case {}", o.render()))
     }
 
     fn exec(&mut self, line: &str) -> (String, String) {
@@ -1225,7 +1596,17 @@ impl Sut for S {
                 return (line.to_string(), format!("cls={}", cls_name(rust_inst_principal(kv(line, "k").unwrap_or("")))));
             }
             "cover" => {
-                return (line.to_string(), if kv_u64(line, "n").unwrap_or(0) > 0 { "ok".into() } else { "err".into() });
+                // n = the principal passed at least once; g = the guard was REACHED (non-principals failed and the principal
+                // then succeeded in the very same state); gp = the same after the principal had been handed over.
+                // x* = documented exception of the harness for that column (see docs/C05.md)
+                let (k, m) = (kv(line, "k").unwrap_or(""), kv(line, "m").unwrap_or(""));
+                let cls = rust_principal(k, m);
+                let b = |key: &str, xkey: &str| (kv_u64(line, key).unwrap_or(0) > 0 || kv_u64(line, xkey).unwrap_or(0) > 0) as u8;
+                let r = reservable(cls);
+                return (
+                    line.to_string(),
+                    format!("n={} g={} gp={}", (r && b("n", "xn") == 1) as u8, (r && b("g", "xg") == 1) as u8, (r && needs_post(cls) && b("gp", "xgp") == 1) as u8),
+                );
             }
             _ => {}
         }
@@ -1236,7 +1617,7 @@ impl Sut for S {
             "t" => {
                 let n = kv_u64(line, "now").unwrap_or(0);
                 self.wd.as_mut().unwrap().w.set_time(n);
-                self.last = LastOp { kind: "-".into(), msg: "t".into(), ..Default::default() };
+                self.last = LastOp { kind: "-".into(), msg: "t".into(), ok: true, ..Default::default() };
                 let post = self.after(line);
                 (line.to_string(), format!("ok {}", post.render()))
             }
@@ -1246,13 +1627,14 @@ impl Sut for S {
                 let caller = kv_u64(line, "c").unwrap_or(0);
                 let caller_s = addr(caller);
                 let pre = self.cur.clone();
-                let (is_contract, target, merge_sources, pre_params) = {
+                let (is_contract, target, merge_sources, pre_params, now) = {
                     let wd = self.wd.as_ref().unwrap();
-                    (wd.is_contract(caller), wd.target(&kind), wd.merge_sources.clone(), wd.params_json())
+                    (wd.is_contract(caller), wd.target(&kind), wd.merge_sources.clone(), wd.params_json(), wd.w.time())
                 };
                 let Some(target) = target else { return (line.to_string(), "bad-op".into()) };
                 let cls = rust_principal(&kind, &msg);
-                let authorised = rust_auth(&pre, &merge_sources, caller, is_contract, cls);
+                let authorised = rust_auth(&self.ghost, &merge_sources, caller, is_contract, cls, now);
+                let post_ep = post_epoch(cls, &self.ghost, &self.init);
                 if kind == "splits" && msg == "distribute" {
                     // test setup, not part of the call: the splits contract always has something to distribute
                     let wd = self.wd.as_mut().unwrap();
@@ -1264,24 +1646,31 @@ impl Sut for S {
                 }
                 let snap = self.take_snap();
                 let (v, funds) = self.wd.as_mut().unwrap().build_msg(&kind, &msg, line, &caller_s);
-                if names_of(&kind).contains(&msg.as_str()) {
-                    // the JSON we send is, for the repo's own typed enum, exactly the message kind of this row
+                if has_msg(&kind, &msg) {
+                    // the JSON we send is, for the repo's own typed enum, exactly the message kind of this row; if it is not
+                    // (a field was added / renamed) the row's principal will fail and the coverage floor reports the row
                     match typed_name(&kind, &v) {
                         Ok(n) if n == msg => {}
-                        other => panic!("harness bug: {kind}/{msg} JSON {v} does not parse as that variant: {:?}", other),
+                        other => {
+                            self.notes.insert(format!("the harness's JSON for {kind}/{msg} no longer round-trips as that variant through the repo's typed message: {:?}", other));
+                        }
                     }
                 }
                 let res = self.wd.as_mut().unwrap().w.exec(&caller_s, &target, &v, &funds);
                 let ok = res.is_ok();
-                self.last = LastOp { kind: kind.clone(), msg: msg.clone(), caller, is_contract, cls: Some(cls), authorised, ok, err: res.err().unwrap_or_default() };
+                self.last = LastOp { kind: kind.clone(), msg: msg.clone(), caller, is_contract, cls: Some(cls), authorised, ok, err: res.err().unwrap_or_default(), post_epoch: post_ep };
+                if std::env::var("C05_DEBUG").map(|v| v == "all").unwrap_or(false) {
+                    eprintln!("X {line} target={target} msg={v} => ok={ok} {}", self.last.err.replace('\n', " "));
+                }
                 if ok && !authorised {
                     self.flag(
                         format!("{kind}/{msg}/non-principal-succeeded"),
-                        format!("caller {caller} is not the {} of `{line}` in state [{}] but the call succeeded", cls_name(cls), pre.render()),
+                        format!("caller {caller} is not the {} of `{line}` in state [{}] (the harness's own bookkeeping of who is who) but the call succeeded", cls_name(cls), self.ghost.render()),
                     );
                 }
                 if ok {
                     self.snap = None;
+                    self.ghost_handover(&kind, &msg, line);
                 } else {
                     self.check_unchanged(&snap, line);
                 }
@@ -1300,15 +1689,16 @@ impl Sut for S {
                 };
                 let cls = rust_inst_principal(&kind);
                 let snap = self.take_snap();
-                let Some((code, v, funds)) = self.wd.as_mut().unwrap().inst_msg(&kind, &caller_s) else { return (line.to_string(), "bad-op".into()) };
+                let Some((code, v, funds)) = self.wd.as_mut().unwrap().inst_msg(&kind, &caller_s, line) else { return (line.to_string(), "bad-op".into()) };
                 let res = self.wd.as_mut().unwrap().w.instantiate(code, &caller_s, &v, &funds, None);
                 let ok = res.is_ok();
                 let authorised = cls != Cls::ContractOnly || is_contract;
-                self.last = LastOp { kind: kind.clone(), msg: "instantiate".into(), caller, is_contract, cls: Some(cls), authorised, ok, err: res.err().unwrap_or_default() };
+                self.last = LastOp { kind: kind.clone(), msg: "instantiate".into(), caller, is_contract, cls: Some(cls), authorised, ok, err: res.err().unwrap_or_default(), post_epoch: false };
                 if ok && !authorised {
+                    // truth = the harness's own knowledge of which of ITS accounts are contracts (the role accounts are not)
                     self.flag(
-                        format!("{kind}/instantiate/user-instantiate-succeeded"),
-                        format!("user account {caller} instantiated a {kind} directly (`{line}`)"),
+                        format!("{kind}/instantiate/by-non-contract"),
+                        format!("the plain account {caller} instantiated a {kind} directly (`{line}`, message {v}) — only a contract may"),
                     );
                 }
                 if ok {
@@ -1335,13 +1725,18 @@ impl Sut for S {
                 };
                 match typed_sudo_name(&kind, &v) {
                     Ok(n) if n == msg => {}
-                    other => panic!("harness bug: sudo {kind}/{msg} JSON {v}: {:?}", other),
+                    other => {
+                        self.notes.insert(format!("the harness's sudo JSON for {kind}/{msg} no longer round-trips as that variant: {:?}", other));
+                    }
                 }
                 let res = self.wd.as_mut().unwrap().w.sudo(&target, &v);
                 let ok = res.is_ok();
                 self.snap = None;
                 self.last = LastOp { kind: kind.clone(), msg: format!("sudo_{msg}"), ok, err: res.err().unwrap_or_default(), ..Default::default() };
                 let post = self.after(line);
+                // what governance sets params / status TO is property C18's business: the new version is a witness
+                self.ghost.pv = post.pv;
+                self.ghost.st = post.st;
                 let val = if kind.starts_with("f.") { post.pv } else { post.st };
                 (format!("{line} v={val} w={}", ok as u8), format!("{} {}", if ok { "ok" } else { "err" }, post.render()))
             }
@@ -1360,13 +1755,23 @@ impl Sut for S {
 struct Gen {
     /// (kind, msg) -> number of successful calls by an authorised caller
     succ: BTreeMap<(String, String), u64>,
-    /// rows on which an authorised caller was tried at least once
-    tried: BTreeSet<(String, String)>,
+    /// (kind, msg) -> number of non-principal failures that a success of the principal IN THE SAME STATE (no tick, no
+    /// successful call in between) shows to be failures of the guard, not of some other precondition
+    guard: BTreeMap<(String, String), u64>,
+    /// the same, counted only when the row's principal had already been handed over
+    guard_post: BTreeMap<(String, String), u64>,
+    /// non-principal failures since the state last changed
+    np_pending: BTreeMap<(String, String), u64>,
     phase: String,
+    /// this world leaves the creator's `enable_updatable` until after the creator hand-over
+    eu_late: bool,
+    unknown_seen: BTreeSet<String>,
 }
 
 /// messages whose success is irreversible for the rest of the case: the sweeps leave them to the explicit phases
 const DESTRUCTIVE: [&str; 5] = ["freeze_collection_info", "freeze_token_metadata", "freeze", "renounce_ownership", "burn_remaining"];
+/// messages whose "otherwise valid" arguments have a ladder (`alt=`): the principal retries coarser rungs when a rung fails
+const LADDER: [&str; 9] = ["mint_for", "update_mint_price", "update_start_time", "update_end_time", "update_start_trading_time", "update_discount_price", "enable_updatable", "add_stage", "update_stage_config"];
 
 fn wd(sut: &S) -> &Wd {
     sut.wd.as_ref().unwrap()
@@ -1427,18 +1832,30 @@ fn do_line(ses: &mut Session, sut: &mut S, g: &mut Gen, line: &str) -> bool {
     let ok = out.starts_with("ok");
     if l.cls.is_some() {
         let key = (l.kind.clone(), l.msg.clone());
-        if l.authorised {
-            g.tried.insert(key.clone());
-            if ok {
-                *g.succ.entry(key).or_insert(0) += 1;
+        if !l.authorised && !ok {
+            *g.np_pending.entry(key.clone()).or_insert(0) += 1;
+        }
+        if l.authorised && ok {
+            *g.succ.entry(key.clone()).or_insert(0) += 1;
+            if let Some(n) = g.np_pending.get(&key).copied() {
+                // the state has not changed since those callers failed (failed transactions change nothing, nothing
+                // succeeded, the clock did not move) and the principal now passes: they failed BECAUSE of who they are
+                *g.guard.entry(key.clone()).or_insert(0) += n;
+                if l.post_epoch {
+                    *g.guard_post.entry(key.clone()).or_insert(0) += n;
+                }
+                ses.mark(format!("guard/{}/{}/{}", if l.post_epoch { "post" } else { "pre" }, l.kind, l.msg));
             }
         }
         let rc = role_class(sut, l.caller);
         ses.mark(format!("{}/{}/{}/{}/{}", l.kind, l.msg, rc, g.phase, if ok { "ok" } else { "err" }));
         if !ok {
-            // error kinds are logged (never compared): authorisation vs other reasons
+            // error kinds are logged (never compared, never used by a monitor): authorisation vs other reasons
             let unauth = l.err.contains("nauthorized") || l.err.contains("not an admin") || l.err.contains("NotOwner") || l.err.contains("not the contract's") || l.err.contains("Caller is not");
             ses.count(&format!("err:{}:{}", rc, if unauth { "unauthorised" } else if l.err.contains("parsing") || l.err.contains("unknown variant") || l.err.contains("Error parsing") { "no-such-message" } else if l.err.starts_with("panic") { "panic" } else { "other" }));
+            if std::env::var("C05_DEBUG").map(|v| v == "all").unwrap_or(false) {
+                eprintln!("ERR [{}] {} => {}", g.phase, line, l.err.replace('\n', " "));
+            }
             if l.authorised {
                 ses.count(&format!("principal-failed:{}/{}", l.kind, l.msg));
                 if std::env::var("C05_DEBUG").is_ok() {
@@ -1446,6 +1863,10 @@ fn do_line(ses: &mut Session, sut: &mut S, g: &mut Gen, line: &str) -> bool {
                 }
             }
         }
+    }
+    if ok {
+        // the state (or the clock) moved: earlier failures no longer say anything about the present state
+        g.np_pending.clear();
     }
     ok
 }
@@ -1461,10 +1882,52 @@ fn now(sut: &S) -> u64 {
 }
 fn is_auth(sut: &S, kind: &str, msg: &str, c: u64) -> bool {
     let w = wd(sut);
-    rust_auth(&sut.cur, &w.merge_sources, c, w.is_contract(c), rust_principal(kind, msg))
+    rust_auth(&sut.ghost, &w.merge_sources, c, w.is_contract(c), rust_principal(kind, msg), w.w.time())
 }
 
-/// every row of the table for the contracts of this world × callers (non-principals first, the principals last)
+/// one row × callers: non-principals first (each in a state in which the principal's call succeeds), the principals last
+fn sweep_row(ses: &mut Session, sut: &mut S, g: &mut Gen, kind: &str, msg: &str, mn: Option<&str>) {
+    let cls = rust_principal(kind, msg);
+    let minter_id = addr_id(&wd(sut).minter);
+    let callers: Vec<u64> = match cls {
+        Cls::Anyone => vec![STRANGER, BUYER, minter_id],
+        Cls::Nobody | Cls::SudoOnly => vec![CREATOR, WL_ADMIN, SPLITS_ADMIN, STRANGER, minter_id],
+        _ => all_callers(sut),
+    };
+    let (pr, np): (Vec<u64>, Vec<u64>) = callers.into_iter().partition(|c| cls != Cls::Anyone && is_auth(sut, kind, msg, *c));
+    let skip_principal = |g: &Gen, sut: &S| DESTRUCTIVE.contains(&msg) || (msg == "enable_updatable" && g.eu_late && !post_epoch(Cls::Creator, &sut.ghost, &sut.init));
+    let tail = mn.map(|n| format!(" mn={n}")).unwrap_or_default();
+    if (msg == "update_discount_price" || msg == "remove_discount_price") && !pr.is_empty() {
+        // the discount messages are rate-limited: move the clock BEFORE the non-principals try, so that they are refused in
+        // exactly the state in which the admin is accepted
+        let t = now(sut) + 13 * HOUR;
+        tick(ses, sut, g, t);
+    }
+    for c in np {
+        let a = sweep_args(kind, msg, c, false, &sut.ghost);
+        do_x(ses, sut, g, kind, msg, c, &format!("{a}{tail}"));
+        if kind.starts_with("c.") && msg == "update_collection_info" && (c == STRANGER || c == sut.ghost.adm) {
+            do_x(ses, sut, g, kind, msg, c, " nc=-"); // not even touching the creator field
+        }
+        if msg == "receive_nft" && has_msg(kind, msg) && (c >= 1000 || c == STRANGER) {
+            do_x(ses, sut, g, kind, msg, c, " sv=1"); // the `sender` FIELD names the configured source collection
+        }
+    }
+    for c in pr {
+        if skip_principal(g, sut) || !is_auth(sut, kind, msg, c) {
+            continue;
+        }
+        let a = sweep_args(kind, msg, c, true, &sut.ghost);
+        let mut ok = do_x(ses, sut, g, kind, msg, c, &format!("{a}{tail}"));
+        let mut alt = 1;
+        while !ok && LADDER.contains(&msg) && alt <= MAX_ALT {
+            ok = do_x(ses, sut, g, kind, msg, c, &format!("{a}{tail} alt={alt}"));
+            alt += 1;
+        }
+    }
+}
+
+/// every row of the table for the contracts of this world × callers
 fn sweep(ses: &mut Session, sut: &mut S, g: &mut Gen, only: Option<&[&str]>) {
     for kind in world_kinds(sut) {
         if let Some(f) = only {
@@ -1473,48 +1936,54 @@ fn sweep(ses: &mut Session, sut: &mut S, g: &mut Gen, only: Option<&[&str]>) {
             }
         }
         for msg in family_tokens(&kind) {
-            let cls = rust_principal(&kind, msg);
-            let minter_id = addr_id(&wd(sut).minter);
-            let callers: Vec<u64> = match cls {
-                Cls::Anyone => vec![STRANGER, BUYER, minter_id],
-                Cls::Nobody | Cls::SudoOnly => vec![CREATOR, WL_ADMIN, SPLITS_ADMIN, STRANGER, minter_id],
-                _ => all_callers(sut),
-            };
-            let (pr, np): (Vec<u64>, Vec<u64>) = callers.into_iter().partition(|c| cls != Cls::Anyone && is_auth(sut, &kind, msg, *c));
-            for c in np {
-                let a = sweep_args(&kind, msg, c, false, &sut.cur);
-                do_x(ses, sut, g, &kind, msg, c, &a);
+            sweep_row(ses, sut, g, &kind, msg, None);
+        }
+        // variants the table does not know (found in the repo's schema at run time): default-deny under the same monitors
+        for name in unknown_variants(&kind) {
+            if g.unknown_seen.insert(format!("{kind}/{name}")) {
+                ses.note(format!("UNKNOWN MESSAGE KIND `{name}` on {kind}: not a row of the table; swept as `other` (default-deny: reserved to the {})", cls_name(default_deny(&kind))));
             }
-            for c in pr {
-                if DESTRUCTIVE.contains(&msg) || !is_auth(sut, &kind, msg, c) {
-                    continue;
-                }
-                if msg == "update_discount_price" || msg == "remove_discount_price" {
-                    let t = now(sut) + 13 * HOUR;
-                    tick(ses, sut, g, t);
-                }
-                let a = sweep_args(&kind, msg, c, true, &sut.cur);
-                do_x(ses, sut, g, &kind, msg, c, &a);
-            }
+            ses.mark(format!("unknown-variant/{kind}/{name}"));
+            sweep_row(ses, sut, g, &kind, "other", Some(&name));
         }
     }
 }
 
-/// user / contract `instantiate` of every contract kind of the workspace
+/// user / contract `instantiate` of every contract kind of the workspace. For collections the `minter` FIELD of the message
+/// is varied independently of the sender: (a) a plain account naming itself, (b) a plain account naming an EXISTING contract
+/// (the minter, the factory, the collection, the splits contract), (c) a contract (the legitimate path).
 fn instantiate_sweep(ses: &mut Session, sut: &mut S, g: &mut Gen) {
-    let (f, m, s) = {
+    let (f, m, s, c, src) = {
         let w = wd(sut);
-        (addr_id(&w.factory), addr_id(&w.minter), addr_id(&w.splits))
+        (addr_id(&w.factory), addr_id(&w.minter), addr_id(&w.splits), addr_id(&w.coll), w.src_coll.as_ref().map(|x| addr_id(x)))
     };
     for k in ALL_MINTERS {
-        for c in [CREATOR, STRANGER, s, m, f] {
-            do_line(ses, sut, g, &format!("i k={} c={c}", mk_tok(k)));
+        for u in [CREATOR, STRANGER] {
+            do_line(ses, sut, g, &format!("i k={} c={u}", mk_tok(k)));
+        }
+        for cc in [s, m, f] {
+            do_line(ses, sut, g, &format!("i k={} c={cc}", mk_tok(k)));
         }
     }
     for k in ALL_COLL {
-        for c in [CREATOR, STRANGER, BUYER, f, m] {
-            do_line(ses, sut, g, &format!("i k={} c={c}", ck_tok(k)));
+        let kt = ck_tok(k);
+        for u in [CREATOR, STRANGER, BUYER] {
+            do_line(ses, sut, g, &format!("i k={kt} c={u}"));
         }
+        let mut named = vec![m, f, c, s];
+        named.extend(src);
+        for (i, mt) in named.iter().enumerate() {
+            let u = [STRANGER, CREATOR, BUYER][i % 3];
+            let ok = do_line(ses, sut, g, &format!("i k={kt} c={u} mt={mt}"));
+            ses.mark(format!("inst/user-names-existing-contract/{kt}/{}", if ok { "ok" } else { "err" }));
+        }
+        // the legitimate path: a contract instantiates the collection naming itself (what every minter does), or another contract
+        for cc in [m, f] {
+            let ok = do_line(ses, sut, g, &format!("i k={kt} c={cc}"));
+            ses.mark(format!("inst/contract-names-itself/{kt}/{}", if ok { "ok" } else { "err" }));
+        }
+        do_line(ses, sut, g, &format!("i k={kt} c={f} mt={m}"));
+        do_line(ses, sut, g, &format!("i k={kt} c={m} mt={STRANGER}"));
     }
     for k in ALL_FACT {
         do_line(ses, sut, g, &format!("i k={} c={STRANGER}", fk_tok(k)));
@@ -1526,45 +1995,69 @@ fn instantiate_sweep(ses: &mut Session, sut: &mut S, g: &mut Gen) {
     do_line(ses, sut, g, &format!("i k=splits c={s}"));
 }
 
-/// the explicit hand-overs (each by the current principal, read from the observed state)
+/// collection creator hand-over: a stranger trying first, then the creator to `to`, then the old creator is out
+fn creator_handover(ses: &mut Session, sut: &mut S, g: &mut Gen, to: u64) {
+    let ck = ck_tok(wd(sut).ck);
+    do_x(ses, sut, g, ck, "update_collection_info", STRANGER, &format!(" nc={STRANGER}"));
+    let cr = sut.ghost.cr;
+    do_x(ses, sut, g, ck, "update_collection_info", to, &format!(" nc={to}")); // the appointee cannot appoint himself
+    do_x(ses, sut, g, ck, "update_collection_info", cr, &format!(" nc={to}"));
+    do_x(ses, sut, g, ck, "update_collection_info", cr, &format!(" nc={cr}")); // the old creator is out
+}
+
+/// the explicit hand-overs (each by the current principal, taken from the harness's own bookkeeping)
 fn handover_phase(ses: &mut Session, sut: &mut S, g: &mut Gen) {
     let (ck, wk, fk, mk) = {
         let w = wd(sut);
         (ck_tok(w.ck), wk_tok(w.wk), fk_tok(w.mk.factory()), mk_tok(w.mk))
     };
-    // collection creator: old creator -> NEW_CREATOR (a stranger trying first)
-    do_x(ses, sut, g, ck, "update_collection_info", STRANGER, &format!(" nc={STRANGER}"));
-    let cr = sut.cur.cr;
-    do_x(ses, sut, g, ck, "update_collection_info", cr, &format!(" nc={NEW_CREATOR}"));
-    do_x(ses, sut, g, ck, "update_collection_info", cr, &format!(" nc={cr}")); // the old creator is out
-    // cw_ownable: transfer with an expiry, exact boundary instants
-    if let Some(owner) = sut.cur.own {
+    // collection creator: -> NEW_CREATOR, or (when an early hand-over already made NEW_CREATOR the creator) -> NEW_CREATOR2
+    let to = if sut.ghost.cr == NEW_CREATOR { NEW_CREATOR2 } else { NEW_CREATOR };
+    creator_handover(ses, sut, g, to);
+    // cw_ownable: a transfer overwritten by a second one; expiry at the exact boundary instants −1 ns / 0 / +1 ns
+    if let Some(owner) = sut.ghost.own {
         let t0 = now(sut);
+        do_x(ses, sut, g, ck, "transfer_ownership", owner, &format!(" no={NEW_MEMBER} ex=-"));
         do_x(ses, sut, g, ck, "transfer_ownership", owner, &format!(" no={NEW_OWNER} ex={}", t0 + 10_000));
+        do_x(ses, sut, g, ck, "accept_ownership", NEW_MEMBER, ""); // the first appointee was overwritten
         do_x(ses, sut, g, ck, "mint", NEW_OWNER, ""); // pending owner is not the minter yet
         tick(ses, sut, g, t0 + 9_999);
         do_x(ses, sut, g, ck, "accept_ownership", STRANGER, "");
         tick(ses, sut, g, t0 + 10_000);
-        do_x(ses, sut, g, ck, "accept_ownership", NEW_OWNER, ""); // expired exactly now
+        let r0 = do_x(ses, sut, g, ck, "accept_ownership", NEW_OWNER, ""); // expired exactly now
+        ses.mark(format!("expiry/accept/0/{}", if r0 { "ok" } else { "err" }));
+        tick(ses, sut, g, t0 + 10_001);
+        let r1 = do_x(ses, sut, g, ck, "accept_ownership", NEW_OWNER, ""); // and one ns later
+        ses.mark(format!("expiry/accept/+1/{}", if r1 { "ok" } else { "err" }));
         do_x(ses, sut, g, ck, "transfer_ownership", owner, &format!(" no={NEW_OWNER} ex={}", t0 + 20_000));
         tick(ses, sut, g, t0 + 19_999);
-        do_x(ses, sut, g, ck, "accept_ownership", NEW_OWNER, ""); // one ns before the expiry
+        do_x(ses, sut, g, ck, "accept_ownership", STRANGER, "");
+        do_x(ses, sut, g, ck, "accept_ownership", owner, ""); // the owner cannot accept his own offer
+        let r2 = do_x(ses, sut, g, ck, "accept_ownership", NEW_OWNER, ""); // one ns before the expiry
+        ses.mark(format!("expiry/accept/-1/{}", if r2 { "ok" } else { "err" }));
+        do_x(ses, sut, g, ck, "accept_ownership", NEW_OWNER, ""); // same block, again: nothing is pending any more
         do_x(ses, sut, g, ck, "mint", owner, ""); // the old minter is out
         do_x(ses, sut, g, ck, "mint", NEW_OWNER, "");
     }
-    // whitelist admins: [WL_ADMIN] -> [WL_ADMIN2, WL_ADMIN] -> [WL_ADMIN2]
-    if let Some(a0) = sut.cur.wa.first().copied() {
+    // whitelist admins: [WL_ADMIN] -> [WL_ADMIN2, WL_ADMIN] -> a list of 101 (beyond any page size) -> [WL_ADMIN2]
+    if let Some(a0) = sut.ghost.wa.first().copied() {
         do_x(ses, sut, g, wk, "update_admins", a0, &format!(" al={WL_ADMIN2},{a0}"));
-        do_x(ses, sut, g, wk, "update_admins", WL_ADMIN2, &format!(" al={WL_ADMIN2}"));
+        let mut big: Vec<u64> = (200..300).collect();
+        big.push(WL_ADMIN2);
+        do_x(ses, sut, g, wk, "update_admins", WL_ADMIN2, &format!(" al={}", fmt_list(&big)));
         do_x(ses, sut, g, wk, "update_admins", a0, &format!(" al={a0}")); // removed admin is out
+        do_x(ses, sut, g, wk, "update_admins", STRANGER, &format!(" al={STRANGER}"));
+        let r = do_x(ses, sut, g, wk, "update_admins", 299, &format!(" al={WL_ADMIN2}")); // the 100th admin of 101 acts
+        ses.mark(format!("big/wl-admins-101/{}", if r { "ok" } else { "err" }));
+        do_x(ses, sut, g, wk, "update_admins", 299, &format!(" al=299"));
     }
     // splits admin -> NEW_SPLITS_ADMIN; group members: +NEW_MEMBER −MEMBER1; group admin -> MEMBER2
-    if let Some(sa) = sut.cur.sa {
+    if let Some(sa) = sut.ghost.sa {
         do_x(ses, sut, g, "splits", "update_admin", sa, &format!(" na={NEW_SPLITS_ADMIN}"));
         do_x(ses, sut, g, "splits", "distribute", sa, "");
         do_x(ses, sut, g, "splits", "distribute", NEW_SPLITS_ADMIN, "");
     }
-    if let Some(ga) = sut.cur.ga {
+    if let Some(ga) = sut.ghost.ga {
         do_x(ses, sut, g, "group", "update_members", ga, &format!(" add={NEW_MEMBER} rm={MEMBER1}"));
         do_x(ses, sut, g, "group", "update_admin", ga, &format!(" na={MEMBER2}"));
         do_x(ses, sut, g, "group", "update_members", ga, &format!(" add={ga} rm=-"));
@@ -1574,19 +2067,43 @@ fn handover_phase(ses: &mut Session, sut: &mut S, g: &mut Gen) {
     do_line(ses, sut, g, &format!("s k={mk} m=update_status arg=5"));
 }
 
+/// the splits admin is removed: group members distribute — also the LAST of a group grown to the maximum the splits
+/// contract supports (25: beyond the cw4 default page of 10)
+fn members_phase(ses: &mut Session, sut: &mut S, g: &mut Gen) {
+    let Some(sa) = sut.ghost.sa else { return };
+    do_x(ses, sut, g, "splits", "update_admin", sa, " na=-");
+    sweep(ses, sut, g, Some(&["splits", "group"]));
+    if let Some(ga) = sut.ghost.ga {
+        let have = sut.ghost.mem.len() as u64;
+        let max = sg_splits::contract::MAX_GROUP_SIZE as u64;
+        if have < max {
+            let extra: Vec<u64> = (400..400 + (max - have)).collect();
+            let last = *extra.last().unwrap();
+            do_x(ses, sut, g, "group", "update_members", ga, &format!(" add={} rm=-", fmt_list(&extra)));
+            do_x(ses, sut, g, "splits", "distribute", STRANGER, "");
+            do_x(ses, sut, g, "splits", "distribute", 399, "");
+            let r = do_x(ses, sut, g, "splits", "distribute", last, "");
+            ses.mark(format!("big/group-at-max/{}", if r { "ok" } else { "err" }));
+            do_x(ses, sut, g, "group", "update_members", ga, &format!(" add=- rm={}", fmt_list(&extra)));
+            do_x(ses, sut, g, "splits", "distribute", last, ""); // removed again: out
+        }
+    }
+}
+
 fn frozen_phase(ses: &mut Session, sut: &mut S, g: &mut Gen) {
     let (ck, wk) = {
         let w = wd(sut);
         (ck_tok(w.ck), wk_tok(w.wk))
     };
-    if let Some(a) = sut.cur.wa.first().copied() {
+    if let Some(a) = sut.ghost.wa.first().copied() {
         do_x(ses, sut, g, wk, "freeze", STRANGER, "");
         do_x(ses, sut, g, wk, "freeze", a, "");
         do_x(ses, sut, g, wk, "update_admins", a, &format!(" al={a},{STRANGER}")); // admins themselves are out now
         do_x(ses, sut, g, wk, "freeze", a, "");
     }
-    let cr = sut.cur.cr;
+    let cr = sut.ghost.cr;
     do_x(ses, sut, g, ck, "freeze_collection_info", STRANGER, "");
+    do_x(ses, sut, g, ck, "freeze_collection_info", sut.ghost.adm, ""); // the minter admin is not the creator any more
     do_x(ses, sut, g, ck, "freeze_collection_info", cr, "");
     do_x(ses, sut, g, ck, "freeze_token_metadata", STRANGER, "");
     do_x(ses, sut, g, ck, "freeze_token_metadata", cr, "");
@@ -1600,7 +2117,7 @@ fn random_walk(ses: &mut Session, sut: &mut S, g: &mut Gen, rng: &mut Rng, n: u6
         if rng.chance(1, 10) {
             // time: random step, or exactly around a pending ownership expiry
             let t = now(sut);
-            let to = match sut.cur.pex {
+            let to = match sut.ghost.pex {
                 Some(e) if e > t && rng.chance(2, 3) => *rng.pick(&[e - 1, e, e + 1]),
                 _ => t + rng.range(1, 2 * DAY),
             };
@@ -1650,23 +2167,42 @@ fn random_walk(ses: &mut Session, sut: &mut S, g: &mut Gen, rng: &mut Rng, n: u6
             }
             ("w", "update_admins") => {
                 let k = rng.range(0, 3);
-                format!(" al={}", fmt_list(&pick_some(rng, k)))
+                let mut l = pick_some(rng, k);
+                if !l.is_empty() && rng.chance(1, 5) {
+                    l.push(l[0]); // a duplicate entry
+                }
+                format!(" al={}", fmt_list(&l))
             }
             ("splits", "update_admin") | ("group", "update_admin") => format!(" na={}", if rng.chance(1, 3) { "-".to_string() } else { rng.pick(&pool).to_string() }),
             ("group", "update_members") => {
                 let (ka, kr) = (rng.range(0, 2), rng.range(0, 2));
                 format!(" add={} rm={}", fmt_list(&pick_some(rng, ka)), fmt_list(&pick_some(rng, kr)))
             }
+            ("m", "receive_nft") => if rng.chance(1, 2) { " sv=1".to_string() } else { String::new() },
             _ => String::new(),
         };
+        if DESTRUCTIVE.contains(&msg) && is_auth(sut, &kind, msg, c) {
+            // an irreversible message by its principal: a stranger tries the same thing in the same state first
+            do_x(ses, sut, g, &kind, msg, STRANGER, &extra);
+        }
         do_x(ses, sut, g, &kind, msg, c, &extra);
     }
 }
 
 fn run_world(ses: &mut Session, sut: &mut S, g: &mut Gen, rng: &mut Rng, header: &str, random_ops: u64, full: bool) {
     ses.begin_case(sut, header);
+    g.np_pending.clear();
+    let early = kv_u64(header, "early") == Some(1);
+    g.eu_late = kv(header, "eu") == Some("late");
     g.phase = "fresh".into();
     sweep(ses, sut, g, None);
+    if early {
+        // the collection creator is handed over BEFORE the sale starts: from here on "minter admin" (fixed at creation) and
+        // "collection creator" are different accounts while every configuration / airdrop message can still succeed
+        g.phase = "early-handover".into();
+        creator_handover(ses, sut, g, NEW_CREATOR);
+        sweep(ses, sut, g, Some(&["m.", "c."]));
+    }
     // started
     g.phase = "started".into();
     let start = {
@@ -1678,7 +2214,7 @@ fn run_world(ses: &mut Session, sut: &mut S, g: &mut Gen, rng: &mut Rng, header:
     sweep(ses, sut, g, if full { None } else { Some(&["m.", "c.", "w."]) });
     // sold out (burn-remaining by the admin; base minter has no supply)
     g.phase = "soldout".into();
-    let (mk, adm) = (mk_tok(wd(sut).mk), sut.cur.adm);
+    let (mk, adm) = (mk_tok(wd(sut).mk), sut.ghost.adm);
     if wd(sut).mk.is_open_edition() {
         // open editions can only be burnt / purged after their end time
         let end = {
@@ -1687,11 +2223,12 @@ fn run_world(ses: &mut Session, sut: &mut S, g: &mut Gen, rng: &mut Rng, header:
             jnanos(&cfg["end_time"])
         };
         if end > 0 {
-            do_x(ses, sut, g, mk, "burn_remaining", adm, ""); // one ns early: fails for a non-authorisation reason
+            do_x(ses, sut, g, mk, "burn_remaining", adm, ""); // too early: fails for a non-authorisation reason
             tick(ses, sut, g, end + 1);
         }
     }
     do_x(ses, sut, g, mk, "burn_remaining", STRANGER, "");
+    do_x(ses, sut, g, mk, "burn_remaining", sut.ghost.cr, ""); // (early worlds: the creator is not the admin)
     do_x(ses, sut, g, mk, "burn_remaining", adm, "");
     sweep(ses, sut, g, Some(&["m."]));
     // hand-overs
@@ -1699,10 +2236,7 @@ fn run_world(ses: &mut Session, sut: &mut S, g: &mut Gen, rng: &mut Rng, header:
     handover_phase(ses, sut, g);
     sweep(ses, sut, g, None);
     // splits admin removed: group members distribute
-    if let Some(sa) = sut.cur.sa {
-        do_x(ses, sut, g, "splits", "update_admin", sa, " na=-");
-        sweep(ses, sut, g, Some(&["splits", "group"]));
-    }
+    members_phase(ses, sut, g);
     // frozen
     g.phase = "frozen".into();
     frozen_phase(ses, sut, g);
@@ -1714,7 +2248,7 @@ fn run_world(ses: &mut Session, sut: &mut S, g: &mut Gen, rng: &mut Rng, header:
     // renounced ownership: nobody is the collection's minter any more
     g.phase = "renounced".into();
     let ck = ck_tok(wd(sut).ck);
-    if let Some(o) = sut.cur.own {
+    if let Some(o) = sut.ghost.own {
         do_x(ses, sut, g, ck, "renounce_ownership", STRANGER, "");
         do_x(ses, sut, g, ck, "renounce_ownership", o, "");
         sweep(ses, sut, g, Some(&["c."]));
@@ -1722,6 +2256,22 @@ fn run_world(ses: &mut Session, sut: &mut S, g: &mut Gen, rng: &mut Rng, header:
     g.phase = "instantiate".into();
     instantiate_sweep(ses, sut, g);
     ses.end_case();
+    for n in std::mem::take(&mut sut.notes) {
+        ses.note(n);
+    }
+}
+
+/// rows whose guard cannot be seen working AFTER the hand-over in this harness, with the reason (docs/C05.md)
+fn post_exception(kind: &str, msg: &str) -> bool {
+    // irreversible messages are sent once per world, by the explicit phases: each is covered in ONE of the two epochs
+    if DESTRUCTIVE.contains(&msg) {
+        return true;
+    }
+    // sg721-updatable and sg721-nt have no ownership transfer: their minter (cw_ownable owner) can never change hands
+    if (kind == "c.updatable" || kind == "c.nt") && matches!(msg, "mint" | "update_start_trading_time") {
+        return true;
+    }
+    false
 }
 
 fn main() {
@@ -1753,30 +2303,64 @@ fn main() {
         (MinterKind::Vending, CollKind::MetadataOnchain, WlKind::Plain),
         (MinterKind::VendingFeatured, CollKind::Nt, WlKind::Tiered),
     ];
-    let mut combos: Vec<(MinterKind, CollKind, WlKind, u64, bool)> = base_combo.iter().map(|(m, c, w)| (*m, *c, *w, ses.scale(150, 1500), true)).collect();
-    // sg721-base migrated to sg721-updatable (header flag mig=1 on every updatable world with an even index)
-    combos.push((MinterKind::VendingMerkle, CollKind::Updatable, WlKind::TieredMerkle, ses.scale(150, 1500), true));
-    let mig_case = combos.len() - 1;
+    // (minter, collection, whitelist, random ops, full sweeps, mig, early, eu-late)
+    struct Combo(MinterKind, CollKind, WlKind, u64, bool, bool, bool, bool);
+    let rq = ses.scale(150, 1500);
+    // every minter kind gets its EARLY-hand-over world (creator handed over before the sale starts); the two extra vending
+    // worlds keep the late shape (hand-over after start and sell-out)
+    let mut combos: Vec<Combo> = base_combo.iter().enumerate().map(|(i, (m, c, w))| Combo(*m, *c, *w, rq, true, false, i < 11, false)).collect();
+    // sg721-base migrated to sg721-updatable: `enable_updatable` can succeed — once before the creator hand-over (late world) …
+    combos.push(Combo(MinterKind::VendingMerkle, CollKind::Updatable, WlKind::TieredMerkle, rq, true, true, false, false));
+    // … and once after it (early hand-over, the creator's own `enable_updatable` held back until then)
+    combos.push(Combo(MinterKind::VendingFlex, CollKind::Updatable, WlKind::Flex, rq / 2, true, true, true, true));
     if thorough {
         // every minter kind × every collection kind, whitelist kinds rotating, several seeds of random continuation
         let mut i = 0;
         for m in ALL_MINTERS {
             for c in ALL_COLL {
-                for _rep in 0..2 {
-                    combos.push((m, c, ALL_WL[i % 7], ses.scale(150, 1200), false));
+                for rep in 0..2 {
+                    let mig = c == CollKind::Updatable && rep == 0;
+                    combos.push(Combo(m, c, ALL_WL[i % 7], ses.scale(150, 1200), false, mig, rep == 0, mig && i % 4 == 0));
                     i += 1;
                 }
             }
         }
     }
-    for (i, (m, c, w, rops, full)) in combos.iter().enumerate() {
-        let mig = (i == mig_case || (i > mig_case && i % 2 == 0)) as u8;
-        let header = format!("case world{} mk={} ck={} wk={} n=100 mig={}", i, mk_tok(*m), ck_tok(*c), wk_tok(*w), mig);
+    // fixed corpus (corpus/C05/minter-admin-not-creator.json, Lean: C05_clause_minter_admin_counterexample): after a creator
+    // hand-over the OLD creator is still the minter admin, the NEW creator is not — on one minter of every family
+    for mk in [MinterKind::Vending, MinterKind::OpenEdition, MinterKind::TokenMerge] {
+        let kt = mk_tok(mk);
+        ses.begin_case(&mut sut, &format!("case corpus=minter-admin-not-creator mk={kt} ck=c.base wk=w.plain n=100 mig=0 early=0"));
+        g.np_pending.clear();
+        g.phase = "corpus".into();
+        do_x(&mut ses, &mut sut, &mut g, kt, "mint_to", NEW_CREATOR, "");
+        do_x(&mut ses, &mut sut, &mut g, kt, "mint_to", CREATOR, "");
+        do_x(&mut ses, &mut sut, &mut g, "c.base", "update_collection_info", CREATOR, &format!(" nc={NEW_CREATOR}"));
+        let new_ok = do_x(&mut ses, &mut sut, &mut g, kt, "mint_to", NEW_CREATOR, "");
+        let old_ok = do_x(&mut ses, &mut sut, &mut g, kt, "mint_to", CREATOR, "");
+        do_x(&mut ses, &mut sut, &mut g, kt, "update_per_address_limit", NEW_CREATOR, "");
+        do_x(&mut ses, &mut sut, &mut g, kt, "update_per_address_limit", CREATOR, "");
+        ses.mark(format!("corpus:minter-admin-not-creator:{kt}:new-creator-{}:old-creator-{}", if new_ok { "ok" } else { "err" }, if old_ok { "ok" } else { "err" }));
+        ses.end_case();
+    }
+
+    for (i, Combo(m, c, w, rops, full, mig, early, eu_late)) in combos.iter().enumerate() {
+        let header = format!(
+            "case world{} mk={} ck={} wk={} n=100 mig={} early={}{}",
+            i,
+            mk_tok(*m),
+            ck_tok(*c),
+            wk_tok(*w),
+            *mig as u8,
+            *early as u8,
+            if *eu_late { " eu=late" } else { "" }
+        );
         let mut r = rng.fork();
         run_world(&mut ses, &mut sut, &mut g, &mut r, &header, *rops, *full);
     }
 
-    // the two tables (Rust monitors' vs Lean theorems') agree on every row; every reservable row was passed by its principal
+    // the two tables (Rust monitors' vs Lean theorems') agree on every row; every reservable row of the LEAN table was passed
+    // by its principal, and its guard was reached (before and after the hand-over of that principal)
     ses.begin_case(&mut sut, "case coverage");
     let mut all_kinds: Vec<String> = vec![];
     all_kinds.extend(ALL_FACT.iter().map(|k| fk_tok(*k).to_string()));
@@ -1785,30 +2369,91 @@ fn main() {
     all_kinds.extend(ALL_WL.iter().map(|k| wk_tok(*k).to_string()));
     all_kinds.push("splits".into());
     all_kinds.push("group".into());
+    let mut gaps: Vec<String> = vec![];
     for k in &all_kinds {
         ses.step(&mut sut, &format!("irow k={k}"));
         for m in family_tokens(k) {
             ses.step(&mut sut, &format!("row k={k} m={m}"));
         }
-    }
-    // rows whose principal cannot succeed in this harness for a reason that is not authorisation (documented in docs/C05.md)
-    let no_success: [(&str, &str); 0] = [];
-    let mut never: Vec<String> = vec![];
-    for (k, m) in g.tried.iter() {
-        let n = g.succ.get(&(k.clone(), m.clone())).copied().unwrap_or(0);
-        if m == "instantiate" {
-            continue;
-        }
-        if no_success.contains(&(k.as_str(), m.as_str())) || rust_principal(k, m) == Cls::Anyone {
-            if n == 0 {
-                never.push(format!("{k}/{m}"));
+        ses.step(&mut sut, &format!("row k={k} m=other"));
+        // the driver answers from the LEAN table which rows need which coverage: a reserved row the harness never even tried
+        // shows up as a difference here
+        for m in family_tokens(k) {
+            let key = (k.clone(), m.to_string());
+            let (n, gd, gp) = (g.succ.get(&key).copied().unwrap_or(0), g.guard.get(&key).copied().unwrap_or(0), g.guard_post.get(&key).copied().unwrap_or(0));
+            let xgp = post_exception(k, m) as u8;
+            let cls = rust_principal(k, m);
+            if reservable(cls) && (n == 0 || gd == 0 || (needs_post(cls) && gp == 0 && xgp == 0)) {
+                gaps.push(format!("{k}/{m}:n={n},g={gd},gp={gp}"));
             }
-            continue;
+            ses.step(&mut sut, &format!("cover k={k} m={m} n={n} g={gd} gp={gp} xgp={xgp}"));
         }
-        ses.step(&mut sut, &format!("cover k={k} m={m} n={n}"));
     }
     ses.end_case();
-    ses.note(format!("rows tried with an authorised caller: {}; rows where the principal never succeeded (public rows / documented exceptions only): {:?}", g.tried.len(), never));
-    ses.note("callers: 13 account roles + every contract of the world; phases: fresh, started, soldout, handover (incl. expiry −1ns/0/+1ns), splits admin removed, frozen, random continuation, renounced, instantiate");
+    if !gaps.is_empty() {
+        ses.note(format!("COVERAGE GAPS (reserved rows whose principal never passed / whose guard was never reached): {:?}", gaps));
+    }
+
+    // coverage floor: without these the run would be vacuous in the respect named
+    for k in ALL_MINTERS {
+        let kt = mk_tok(k);
+        if k == MinterKind::Base {
+            ses.require(format!("guard/post/{kt}/mint"));
+            continue;
+        }
+        // the guard of the configuration / airdrop rows seen working while creator ≠ minter admin, before the sale starts
+        ses.require(format!("guard/post/{kt}/mint_to"));
+        ses.require(format!("guard/post/{kt}/update_start_time"));
+        ses.require(format!("guard/post/{kt}/update_per_address_limit"));
+        if k != MinterKind::TokenMerge {
+            ses.require(format!("guard/post/{kt}/set_whitelist"));
+            ses.require(format!("guard/post/{kt}/update_mint_price"));
+        }
+        ses.require(format!("{kt}/burn_remaining/principal/soldout/ok"));
+    }
+    for k in ALL_MINTERS {
+        // direct instantiate of the minter code: plain accounts refused, a contract (a factory) accepted in the same state
+        ses.require(format!("guard/pre/{}/instantiate", mk_tok(k)));
+    }
+    ses.require("guard/pre/m.tm/receive_nft");
+    for kt in ["m.vending", "m.oe", "m.tm"] {
+        // what the code does today (see docs/C05.md, "the minter admin is not the live creator"); if this flips, the model's
+        // `minterAdmin` principal and the counter-example theorem have to be revisited
+        ses.require(format!("corpus:minter-admin-not-creator:{kt}:new-creator-err:old-creator-ok"));
+    }
+    for c in ALL_COLL {
+        let kt = ck_tok(c);
+        ses.require(format!("guard/pre/{kt}/update_collection_info"));
+        ses.require(format!("guard/post/{kt}/update_collection_info"));
+        if c == CollKind::Base || c == CollKind::MetadataOnchain {
+            ses.require(format!("guard/post/{kt}/mint"));
+            ses.require(format!("guard/pre/{kt}/accept_ownership"));
+        }
+        // instantiate: plain accounts refused (naming themselves AND naming an existing contract), a contract accepted
+        ses.require(format!("inst/user-names-existing-contract/{kt}/err"));
+        ses.require(format!("inst/contract-names-itself/{kt}/ok"));
+        ses.require(format!("guard/pre/{kt}/instantiate"));
+    }
+    ses.require("guard/pre/c.updatable/enable_updatable");
+    ses.require("guard/post/c.updatable/enable_updatable");
+    ses.require("guard/post/c.updatable/update_token_metadata");
+    for e in ["expiry/accept/-1/ok", "expiry/accept/0/err", "expiry/accept/+1/err", "big/wl-admins-101/ok", "big/group-at-max/ok"] {
+        ses.require(e);
+    }
+    for w in ALL_WL {
+        if w != WlKind::Immutable {
+            ses.require(format!("guard/post/{}/update_admins", wk_tok(w)));
+            ses.require(format!("{}/freeze/principal/frozen/ok", wk_tok(w)));
+        }
+    }
+    for r in ["guard/post/w.plain/update_start_time", "guard/post/w.plain/remove_members", "guard/post/w.tiered/add_stage", "guard/pre/splits/distribute", "guard/post/splits/distribute", "guard/post/splits/update_admin", "guard/post/group/update_members"] {
+        ses.require(r);
+    }
+    if let Ok(pat) = std::env::var("C05_CLASSES") {
+        for c in ses.classes.iter().filter(|c| c.contains(&pat)) {
+            eprintln!("CLASS {c}");
+        }
+    }
+    ses.note("callers: 14 account roles + every contract of the world; phases: fresh, early-handover (creator handed over before the sale starts), started, soldout, handover (overwritten transfer, expiry −1ns/0/+1ns, 101 admins), splits admin removed (group grown to the maximum), frozen, random continuation, renounced, instantiate (sender and named minter varied independently)");
     ses.finish(&mut sut);
 }
